@@ -5,10 +5,9 @@ import ast
 
 from sa import source
 from sa.cfg import cfg_of, guards
-from sa.classes import ActorModel, handler_guard, is_failure_send
+from sa.classes import ActorModel, handler_guard
 from sa.source import AnchorMissing, dotted, is_self_attr, last_attr, params_of, short, u, walk_body
 
-from rules.C09 import send_target_ok
 
 _M = "esrally/mechanic/mechanic.py"
 _A = "esrally/actor.py"
@@ -47,10 +46,6 @@ def inline_node(expr, defs, depth=0):
             return n
 
     return T().visit(_clone(expr))
-
-
-def inline(expr, defs, depth=0):
-    return u(inline_node(expr, defs, depth))
 
 
 def call_chain(expr):
@@ -103,69 +98,1099 @@ def _effect_sites(model, ci, m, direct):
     return out
 
 
-def _predicate_value(model, ci, call, selfname, rec):
-    """Value of `self.<predicate>(<constant>)`: the predicate method's body (a decision ending in returns) is evaluated on the constant argument and the representative object."""
-    from sa import minieval
-    from sa.tables import decide
-    callee = model.table.method(ci, call.func.attr)
-    if callee is None or call.keywords or len(call.args) != len(params_of(callee)) - 1:
-        raise minieval.CannotEval(f"call {u(call)[:60]}")
-    ps = params_of(callee)
-    env = {ps[0]: rec}
-    for p, a in zip(ps[1:], call.args):
-        env[p] = minieval.ev(a, {selfname: rec})
-
-    def atom(n, _e):
-        try:
-            return bool(minieval.ev(n, dict(env)))
-        except minieval.CannotEval:
-            return None
-
-    out = decide(callee.body, atom, {})
-    if out.kind != "return" or out.value is None:
-        raise minieval.CannotEval(f"{callee.name} does not end in a return on this input")
-    return bool(minieval.ev(out.value, dict(env)))
-
-
-def _child_exit_outcome(model, ci, h, status):
+def _child_exit_outcome(model, ci, h, status, status_attr, RA):
     """What the ChildActorExited handler h of actor ci does when the actor's status is `status`: ('failure' | 'forward' | 'nothing', site, text).
-    The handler body is evaluated as a decision (sa.tables.decide) with status tests decided on the representative status; the effects on the taken path are inspected:
-    a send whose target is an address attribute assigned from a handler's sender (upstream) and whose payload is a BenchmarkFailure (failure) or the received notification (forward).
-    Raises Unsupported / UnknownAtom / CannotEval when the handler is not such a decision."""
-    from sa import minieval
-    from sa.tables import decide
+    The handler is SIMULATED on a stand-in actor in that status (helpers of the class are followed): a send whose target is the value of an address attribute assigned from a
+    handler's sender (upstream) and whose payload is a BenchmarkFailure (failure) or the received notification (forward). Raises _Cannot when the handler cannot be evaluated."""
     ps = params_of(h)
     if len(ps) < 3:
-        raise minieval.CannotEval(f"{h.name} signature is not (self, msg, sender)")
-    selfname, msgname = ps[0], ps[1]
-    rec = minieval.Record(status=status)
-    upstream = {attr for attr, lst in model.address_attrs(ci).items() if any(kind == "sender" for _, kind, _ in lst)}
-
-    def atom(n, _e):
-        try:
-            if _self_call(n, selfname) and model.table.method(ci, n.func.attr) is not None:
-                return _predicate_value(model, ci, n, selfname, rec)
-            return bool(minieval.ev(n, {selfname: rec}))
-        except minieval.CannotEval:
-            return None
-
-    out = decide(h.body, atom, {})
-    binds = {k: v for k, v in getattr(out, "bindings", {}).items() if v is not None}
-    if out.kind == "raise":
-        return "nothing", out.node, "raises (a guarded handler would report that to the sender of the notification, i.e. to nobody)"
-    best = ("nothing", h, f"no send to an upstream address ({sorted(upstream)}) on the path taken in status [{status}]")
-    for e in out.effects:
-        if not (isinstance(e, ast.Call) and last_attr(e.func) == "send" and _self_call(e, selfname) and len(e.args) >= 2):
+        raise _Cannot(f"{h.name} signature is not (self, msg, sender)")
+    upstream = sorted(attr for attr, lst in model.address_attrs(ci).items() if any(kind == "sender" for _, kind, _ in lst))
+    fields = dict(_init_fields(RA))
+    fields.update(_init_fields(ci))
+    fields.update({a: f"upstream address self.{a}" for a in upstream})
+    fields[status_attr] = status
+    me = _Obj(name="self", **{k: _snap(v) for k, v in fields.items()})
+    note = _Obj(cls="ChildActorExited", name="the exit notification", childAddress="address of the child that exited")
+    sim = _Sim(model.table, ci, me)
+    try:
+        sim.call_method(h, [note, "address of the child that exited"])
+    except _Raised as x:
+        return "nothing", x.node if isinstance(x.node, ast.AST) else h, f"raises {x.name} (a guarded handler would report that to the sender of the notification, i.e. to nobody)"
+    best = ("nothing", h, f"no send to an upstream address ({upstream}) on the path taken in status [{status}]")
+    for e in sim.trace:
+        if e.name != "send" or e.recv is not me or len(e.args) < 2 or not any(_eq(e.args[0], f"upstream address self.{a}") for a in upstream):
             continue
-        tgt = source.inline_node(e.args[0], binds)
-        pay = source.inline_node(e.args[1], binds)
-        if not (isinstance(tgt, ast.Attribute) and isinstance(tgt.value, ast.Name) and tgt.value.id == selfname and tgt.attr in upstream):
-            continue
-        if isinstance(pay, ast.Call) and last_attr(pay.func) == "BenchmarkFailure":
-            return "failure", e, f"send({u(tgt)}, BenchmarkFailure) in status [{status}]"
-        if isinstance(pay, ast.Name) and pay.id == msgname and best[0] == "nothing":
-            best = ("forward", e, f"forwards the notification to {u(tgt)}")
+        if _payload_is(e.args[1], "BenchmarkFailure"):
+            return "failure", e.node, f"send({e.args[0]}, BenchmarkFailure) in status [{status}]"
+        if e.args[1] is note and best[0] == "nothing":
+            best = ("forward", e.node, f"forwards the notification to the {e.args[0]}")
     return best
+
+
+# ---------------------------------------------------------------------------------------------------------------------------------------------------------------
+# local engine 1: SIMULATION of extracted actor code on representative values (no repository code is executed: the statements are interpreted over stand-in values).
+# Values that are not known are `_Opaque`: they can be stored, passed on and sent, but a DECISION over them (truth value, comparison, iteration, len) raises `_Cannot`
+# (the rule then reports "not recognised", never a verdict). Calls of methods of the same class (MRO) are followed into their bodies, so an extracted helper, a guard
+# clause, a hoisted local or a renamed attribute / parameter / local does not change what the simulation observes: WHICH calls happen, in which order, with which values.
+
+class _Cannot(Exception):
+    pass
+
+
+class _Raised(Exception):
+    def __init__(self, name, node=None):
+        super().__init__(name)
+        self.name, self.node = name, node
+
+
+class _Ret(Exception):
+    def __init__(self, value):
+        super().__init__("return")
+        self.value = value
+
+
+class _Brk(Exception):
+    pass
+
+
+class _Cnt(Exception):
+    pass
+
+
+class _Opaque:
+    """a value the simulation does not know"""
+
+    def __init__(self, text, call=None):
+        self.text = text
+        self.call = call  # the event that produced it (result of a call that is not interpreted)
+
+    def _no(self, *a, **k):
+        raise _Cannot(f"decision over the unknown value `{self.text[:60]}`")
+
+    __bool__ = __len__ = __iter__ = __eq__ = __ne__ = __lt__ = __le__ = __gt__ = __ge__ = __contains__ = __getitem__ = _no
+    __hash__ = object.__hash__
+
+    def __repr__(self):
+        return f"<{self.text[:50]}>"
+
+
+class _Sym:
+    """a global name the simulation does not bind (module, class or function of the package or of a library): calling it is recorded as an event"""
+
+    def __init__(self, dotted_name):
+        self.dotted = dotted_name
+
+    @property
+    def last(self):
+        return self.dotted.rsplit(".", 1)[-1]
+
+    def __eq__(self, o):
+        if not isinstance(o, _Sym):
+            raise _Cannot(f"comparison of the global `{self.dotted}` (value not known) with {o!r:.40}")
+        return o.dotted == self.dotted
+
+    def __ne__(self, o):
+        return not self.__eq__(o)
+
+    def _no(self, *a, **k):
+        raise _Cannot(f"decision over the global `{self.dotted}` (value not known)")
+
+    __bool__ = __len__ = __iter__ = __lt__ = __le__ = __gt__ = __ge__ = __contains__ = __getitem__ = _no
+
+    def __hash__(self):
+        return hash(self.dotted)
+
+    def __repr__(self):
+        return f"<{self.dotted}>"
+
+
+class _Obj:
+    """an object with known fields: a stand-in supplied by the rule (self, a message) or the result of calling a CapWords global (an instance of that class).
+    Reading a field that was never set gives an opaque value (the same one every time); getattr(o, name, default) / hasattr() answer from the fields that were set."""
+
+    def __init__(self, cls=None, name=None, call=None, **fields):
+        self.cls = cls
+        self.name = name or (cls or "obj")
+        self.call = call
+        self.fields = dict(fields)
+        self._unknown = {}
+
+    def get(self, attr):
+        if attr in self.fields:
+            return self.fields[attr]
+        if attr not in self._unknown:
+            self._unknown[attr] = _Opaque(f"{self.name}.{attr}")
+        return self._unknown[attr]
+
+    def __repr__(self):
+        return f"<{self.name}>"
+
+
+class _Ev:
+    """one call that was not interpreted (API of the actor framework, another object, a library): name = last component of the callee, args / kwargs = the values it got,
+    state = the fields of `self` at that moment (containers copied)."""
+
+    def __init__(self, name, callee, args, kwargs, node, state, recv=None):
+        self.name, self.callee, self.args, self.kwargs, self.node, self.state, self.recv = name, callee, args, kwargs, node, state, recv
+        self.result = None
+
+    def __repr__(self):
+        return f"{self.callee}({', '.join([repr(a) for a in self.args] + [f'{k}={v!r}' for k, v in self.kwargs.items()])})"
+
+
+def _snap(v):
+    if isinstance(v, list):
+        return list(v)
+    if isinstance(v, dict):
+        return {k: _snap(x) for k, x in v.items()}
+    if isinstance(v, set):
+        return set(v)
+    return v
+
+
+_SIM_BUILTINS = {"len": len, "list": list, "tuple": tuple, "set": set, "frozenset": frozenset, "dict": dict, "sorted": sorted, "bool": bool, "any": any, "all": all, "sum": sum,
+                 "min": min, "max": max, "str": str, "int": int, "float": float, "abs": abs, "range": range, "enumerate": enumerate, "zip": zip, "reversed": reversed,
+                 "filter": filter, "iter": iter, "next": next, "repr": repr, "defaultdict": __import__("collections").defaultdict,
+                 "collections.defaultdict": __import__("collections").defaultdict, "OrderedDict": dict, "collections.OrderedDict": dict}
+_SIM_METHODS = {list: {"append", "extend", "insert", "pop", "remove", "clear", "copy", "index", "count", "reverse", "sort"},
+                dict: {"get", "items", "keys", "values", "pop", "setdefault", "update", "copy", "clear", "popitem"},
+                set: {"add", "update", "discard", "remove", "copy", "clear", "union", "difference", "intersection", "issubset", "issuperset", "pop"},
+                frozenset: {"union", "difference", "intersection", "issubset", "issuperset", "copy"},
+                tuple: {"index", "count"},
+                str: {"format", "join", "startswith", "endswith", "lower", "upper", "strip", "lstrip", "rstrip", "split", "rsplit", "replace", "partition", "rpartition", "title",
+                      "capitalize", "casefold", "isdigit", "zfill"}}
+_SIM_BINOPS = {ast.Add: lambda a, b: a + b, ast.Sub: lambda a, b: a - b, ast.Mult: lambda a, b: a * b, ast.Div: lambda a, b: a / b, ast.FloorDiv: lambda a, b: a // b,
+               ast.Mod: lambda a, b: a % b, ast.Pow: lambda a, b: a ** b, ast.BitOr: lambda a, b: a | b, ast.BitAnd: lambda a, b: a & b}
+_SIM_CMP = {ast.Eq: lambda a, b: a == b, ast.NotEq: lambda a, b: a != b, ast.Lt: lambda a, b: a < b, ast.LtE: lambda a, b: a <= b, ast.Gt: lambda a, b: a > b,
+            ast.GtE: lambda a, b: a >= b, ast.Is: lambda a, b: a is b, ast.IsNot: lambda a, b: a is not b, ast.In: lambda a, b: a in b, ast.NotIn: lambda a, b: a not in b}
+_CATCH_ALL = {"Exception", "BaseException"}
+
+
+class _Sim:
+    """Interprets a method of class `ci` (sa.classes.ClassInfo) on a stand-in `self` (an _Obj). `fail(ev)`: the recorded call raises (failure injection);
+    `result(ev)`: value a recorded call returns (NotImplemented = default)."""
+
+    MAX_STEPS = 4000
+
+    def __init__(self, table, ci, self_obj, fail=None, result=None):
+        self.table, self.ci, self.self_obj, self.fail, self.result = table, ci, self_obj, fail, result
+        self.trace = []
+        self.steps = 0
+        self.depth = 0
+        self.current = []  # exceptions being handled (for a bare `raise`)
+
+    # -- entry ---------------------------------------------------------------------------------------------------------------------------------------------
+    def call_method(self, func, args=(), kwargs=None):
+        """run `func` (a method of ci or of a base class) with self bound to the stand-in; returns its value. _Raised propagates when the body raises."""
+        try:
+            return self._invoke(func, [self.self_obj] + list(args), dict(kwargs or {}), bound=True)
+        except (TypeError, AttributeError, ValueError, KeyError, IndexError, RecursionError) as x:
+            # an operation on stand-in values that the interpreter does not model: the code is "not recognised", never a verdict and never a crash of the check
+            raise _Cannot(f"the simulation of {func.name} failed ({type(x).__name__}: {x})")
+
+    def _invoke(self, func, args, kwargs, bound):
+        from sa.classes import decorator_names
+        if self.depth > 8:
+            raise _Cannot(f"call depth exceeded at {func.name}")
+        if any(isinstance(n, (ast.Yield, ast.YieldFrom, ast.Await)) for n in walk_body(func)):
+            raise _Cannot(f"{func.name} is a generator / coroutine")
+        a = func.args
+        if a.vararg is not None or a.kwarg is not None:
+            raise _Cannot(f"{func.name} takes *args / **kwargs")
+        static = any(d.split(".")[-1] == "staticmethod" for d in decorator_names(func))
+        names = [x.arg for x in a.posonlyargs + a.args]
+        if static and bound:
+            args = args[1:]
+        if len(args) > len(names):
+            raise _Raised("TypeError", func)
+        env = dict(zip(names, args))
+        defaults = dict(zip(names[len(names) - len(a.defaults):], a.defaults))
+        for k, v in kwargs.items():
+            if k in env or (k not in names and k not in [x.arg for x in a.kwonlyargs]):
+                raise _Raised("TypeError", func)
+            env[k] = v
+        for k in names:
+            if k not in env:
+                if k not in defaults:
+                    raise _Raised("TypeError", func)
+                env[k] = self.val(defaults[k], {})
+        for x, d in zip(a.kwonlyargs, a.kw_defaults):
+            if x.arg not in env:
+                if d is None:
+                    raise _Raised("TypeError", func)
+                env[x.arg] = self.val(d, {})
+        self.depth += 1
+        try:
+            self.run(func.body, env)
+        except _Ret as r:
+            return r.value
+        finally:
+            self.depth -= 1
+        return None
+
+    # -- expressions ---------------------------------------------------------------------------------------------------------------------------------------
+    def truth(self, e, env):
+        return bool(self.val(e, env))
+
+    def val(self, e, env):
+        self.steps += 1
+        if self.steps > self.MAX_STEPS:
+            raise _Cannot("step limit of the simulation exceeded")
+        if isinstance(e, ast.Constant):
+            return e.value
+        if isinstance(e, ast.Name):
+            if e.id in env:
+                return env[e.id]
+            if e.id in _SIM_BUILTINS:
+                return _SIM_BUILTINS[e.id]
+            return _Sym(e.id)
+        if isinstance(e, ast.Attribute):
+            return self._attr(self.val(e.value, env), e.attr)
+        if isinstance(e, ast.BoolOp):
+            r = None
+            for v in e.values:
+                r = self.val(v, env)
+                if bool(r) != isinstance(e.op, ast.And):
+                    return r
+            return r
+        if isinstance(e, ast.UnaryOp):
+            v = self.val(e.operand, env)
+            if isinstance(e.op, ast.Not):
+                return not v
+            if isinstance(v, (int, float)) and not isinstance(v, bool):
+                return -v if isinstance(e.op, ast.USub) else (+v if isinstance(e.op, ast.UAdd) else ~v)
+            return _Opaque(u(e))
+        if isinstance(e, ast.IfExp):
+            return self.val(e.body, env) if self.truth(e.test, env) else self.val(e.orelse, env)
+        if isinstance(e, ast.Compare):
+            left = self.val(e.left, env)
+            for op, c in zip(e.ops, e.comparators):
+                right = self.val(c, env)
+                try:
+                    if not _SIM_CMP[type(op)](left, right):
+                        return False
+                except TypeError:
+                    raise _Raised("TypeError", e)
+                left = right
+            return True
+        if isinstance(e, (ast.List, ast.Tuple, ast.Set)):
+            out = []
+            for x in e.elts:
+                if isinstance(x, ast.Starred):
+                    out += list(self._iterable(self.val(x.value, env), x))
+                else:
+                    out.append(self.val(x, env))
+            return out if isinstance(e, ast.List) else (tuple(out) if isinstance(e, ast.Tuple) else set(out))
+        if isinstance(e, ast.Dict):
+            out = {}
+            for k, v in zip(e.keys, e.values):
+                if k is None:
+                    d = self.val(v, env)
+                    if not isinstance(d, dict):
+                        raise _Cannot(f"** of `{u(v)[:40]}`")
+                    out.update(d)
+                else:
+                    out[self.val(k, env)] = self.val(v, env)
+            return out
+        if isinstance(e, ast.Subscript):
+            v = self.val(e.value, env)
+            if isinstance(e.slice, ast.Slice):
+                if isinstance(v, (list, tuple, str)):
+                    lo, hi, st = (None if x is None else self.val(x, env) for x in (e.slice.lower, e.slice.upper, e.slice.step))
+                    return v[lo:hi:st]
+                return _Opaque(u(e))
+            k = self.val(e.slice, env)
+            if isinstance(v, (list, tuple, str, dict)):
+                try:
+                    return v[k]
+                except (KeyError, IndexError, TypeError) as x:
+                    raise _Raised(type(x).__name__, e)
+            return _Opaque(u(e))
+        if isinstance(e, ast.BinOp):
+            a, b = self.val(e.left, env), self.val(e.right, env)
+            if type(e.op) in _SIM_BINOPS and not any(isinstance(x, (_Opaque, _Obj, _Sym)) for x in (a, b)):
+                try:
+                    return _SIM_BINOPS[type(e.op)](a, b)
+                except _Cannot:
+                    raise
+                except Exception:  # noqa: BLE001 — e.g. "%d" % <stand-in>: the text is of no interest
+                    return _Opaque(u(e))
+            return _Opaque(u(e))
+        if isinstance(e, ast.JoinedStr):
+            for v in e.values:
+                if isinstance(v, ast.FormattedValue):
+                    self.val(v.value, env)
+            return _Opaque(u(e))
+        if isinstance(e, ast.Call):
+            return self._call(e, env)
+        if isinstance(e, (ast.ListComp, ast.SetComp, ast.GeneratorExp, ast.DictComp)):
+            out = []
+
+            def rec(i, env_):
+                if i == len(e.generators):
+                    out.append((self.val(e.key, env_), self.val(e.value, env_)) if isinstance(e, ast.DictComp) else self.val(e.elt, env_))
+                    return
+                g_ = e.generators[i]
+                for x in self._iterable(self.val(g_.iter, env_), g_.iter):
+                    env2 = dict(env_)
+                    self._bind(g_.target, x, env2)
+                    if all(self.truth(c, env2) for c in g_.ifs):
+                        rec(i + 1, env2)
+
+            rec(0, dict(env))
+            return dict(out) if isinstance(e, ast.DictComp) else (set(out) if isinstance(e, ast.SetComp) else out)
+        if isinstance(e, ast.NamedExpr):
+            v = self.val(e.value, env)
+            env[e.target.id] = v
+            return v
+        if isinstance(e, ast.Starred):
+            raise _Cannot(f"starred expression `{u(e)[:40]}` outside a call / display")
+        return _Opaque(u(e))  # lambda, await, ...
+
+    def _attr(self, v, attr):
+        if isinstance(v, _Obj):
+            return v.get(attr)
+        if isinstance(v, _Sym):
+            return _Sym(f"{v.dotted}.{attr}")
+        if isinstance(v, _Opaque):
+            return _Opaque(f"{v.text}.{attr}")
+        if v is None:
+            raise _Raised("AttributeError")
+        return _Opaque(f"{v!r:.30}.{attr}")
+
+    def _iterable(self, v, node):
+        if isinstance(v, (list, tuple, set, frozenset, str, range)) or isinstance(v, dict):
+            return list(v)
+        if isinstance(v, (_Opaque, _Obj, _Sym)) or v is None or isinstance(v, (int, float)):
+            if v is None or isinstance(v, (int, float)):
+                raise _Raised("TypeError", node)
+            raise _Cannot(f"iteration over the unknown value `{u(node)[:60]}`")
+        try:
+            return list(v)  # enumerate / zip / filter / dict views ...
+        except TypeError:
+            raise _Raised("TypeError", node)
+
+    def _event(self, name, callee, args, kwargs, node, recv=None, default=None):
+        ev = _Ev(name, callee, list(args), dict(kwargs), node, {k: _snap(v) for k, v in self.self_obj.fields.items()}, recv)
+        self.trace.append(ev)
+        if self.fail is not None and self.fail(ev):
+            raise _Raised("Exception", node)
+        r = self.result(ev) if self.result is not None else NotImplemented
+        if r is NotImplemented:
+            r = default(ev) if default is not None else _Opaque(f"{callee}(...)", call=ev)
+        ev.result = r
+        return r
+
+    def _call(self, e, env):
+        args, kwargs = [], {}
+        f = e.func
+        # receiver first (evaluation order: callee, then arguments)
+        recv = None
+        if isinstance(f, ast.Attribute):
+            recv = self.val(f.value, env)
+            fv = None
+        else:
+            fv = self.val(f, env)
+        for a in e.args:
+            if isinstance(a, ast.Starred):
+                args += list(self._iterable(self.val(a.value, env), a.value))
+            else:
+                args.append(self.val(a, env))
+        for k in e.keywords:
+            if k.arg is None:
+                d = self.val(k.value, env)
+                if not isinstance(d, dict):
+                    raise _Cannot(f"** of `{u(k.value)[:40]}`")
+                kwargs.update(d)
+            else:
+                kwargs[k.arg] = self.val(k.value, env)
+        callee = u(f)
+        if isinstance(f, ast.Attribute):
+            attr = f.attr
+            if recv is self.self_obj:
+                m = self.table.method(self.ci, attr)
+                if m is not None:
+                    return self._invoke(m, [recv] + args, kwargs, bound=True)
+                if attr in recv.fields:
+                    return self._call_value(recv.fields[attr], args, kwargs, e, callee)
+                return self._event(attr, callee, args, kwargs, e, recv=recv)
+            for t, ms in _SIM_METHODS.items():
+                if isinstance(recv, t) and attr in ms:
+                    try:
+                        r = getattr(recv, attr)(*args, **kwargs)
+                    except _Cannot:
+                        raise
+                    except Exception as x:  # noqa: BLE001 — KeyError, IndexError, ValueError of the container method
+                        raise _Raised(type(x).__name__, e)
+                    return list(r) if attr in ("items", "keys", "values") else r
+            if recv is None:
+                raise _Raised("AttributeError", e)
+            if isinstance(recv, _Sym):
+                return self._call_value(_Sym(f"{recv.dotted}.{attr}"), args, kwargs, e, callee)
+            if isinstance(recv, _Obj) and attr in recv.fields:
+                return self._call_value(recv.fields[attr], args, kwargs, e, callee)
+            return self._event(attr, callee, args, kwargs, e, recv=recv)
+        return self._call_value(fv, args, kwargs, e, callee)
+
+    def _call_value(self, fv, args, kwargs, e, callee):
+        if isinstance(fv, _Sym) and fv.dotted in _SIM_BUILTINS:
+            fv = _SIM_BUILTINS[fv.dotted]
+        if isinstance(fv, _Sym):
+            if fv.dotted in ("getattr", "hasattr", "isinstance", "type", "id", "callable", "print", "super"):
+                return self._special(fv.dotted, args, kwargs, e)
+            mk = (lambda ev: _Obj(cls=fv.dotted, call=ev)) if fv.last[:1].isupper() else None  # CapWords: an instance of that class
+            return self._event(fv.last, fv.dotted, args, kwargs, e, default=mk)
+        if any(fv is b for b in _SIM_BUILTINS.values()):
+            try:
+                r = fv(*args, **kwargs)
+                return list(r) if any(fv is b for b in (filter, enumerate, zip, reversed, range)) else r
+            except (_Cannot, _Raised):
+                raise
+            except StopIteration:
+                raise _Raised("StopIteration", e)
+            except Exception as x:  # noqa: BLE001
+                if any(isinstance(a_, (_Opaque, _Obj, _Sym)) for a_ in args):
+                    return _Opaque(u(e))
+                raise _Raised(type(x).__name__, e)
+        if callable(fv) and getattr(fv, "_sim_callback", False):
+            return fv(self, args, kwargs, e)
+        name = callee.rsplit(".", 1)[-1]
+        return self._event(name, callee, args, kwargs, e)
+
+    def _special(self, name, args, kwargs, e):
+        if name == "getattr" and len(args) in (2, 3) and isinstance(args[1], str):
+            o = args[0]
+            if isinstance(o, _Obj):
+                if args[1] in o.fields or len(args) == 2:
+                    return o.get(args[1])
+                return args[2]
+            return _Opaque(u(e))
+        if name == "hasattr" and len(args) == 2 and isinstance(args[1], str):
+            if isinstance(args[0], _Obj):
+                return args[1] in args[0].fields
+            raise _Cannot(f"`{u(e)[:60]}`")
+        if name == "isinstance" and len(args) == 2:
+            o, t = args
+            ts = list(t) if isinstance(t, tuple) else [t]
+            if all(isinstance(x, type) for x in ts):
+                if isinstance(o, (_Opaque, _Obj, _Sym)):
+                    if isinstance(o, _Opaque):
+                        raise _Cannot(f"`{u(e)[:60]}`")
+                    return False
+                return isinstance(o, tuple(ts))
+            if isinstance(o, _Opaque):
+                raise _Cannot(f"`{u(e)[:60]}`")
+            if isinstance(o, _Obj) and o.cls is not None:
+                return any(isinstance(x, _Sym) and x.last == o.cls.rsplit(".", 1)[-1] for x in ts)
+            if isinstance(o, _Obj):
+                raise _Cannot(f"`{u(e)[:60]}` (class of the stand-in not fixed)")
+            return False
+        return _Opaque(u(e))
+
+    # -- statements ----------------------------------------------------------------------------------------------------------------------------------------
+    def _bind(self, t, v, env):
+        if isinstance(t, ast.Name):
+            env[t.id] = v
+        elif isinstance(t, (ast.Tuple, ast.List)):
+            if isinstance(v, (_Opaque, _Obj, _Sym)):
+                for x in t.elts:
+                    self._bind(x.value if isinstance(x, ast.Starred) else x, _Opaque(f"item of {v!r}"), env)
+                return
+            vals = self._iterable(v, t)
+            star = [i for i, x in enumerate(t.elts) if isinstance(x, ast.Starred)]
+            if star:
+                i = star[0]
+                rest = len(t.elts) - i - 1
+                if len(vals) < len(t.elts) - 1:
+                    raise _Raised("ValueError", t)
+                vals = vals[:i] + [vals[i:len(vals) - rest]] + vals[len(vals) - rest:]
+            if len(vals) != len(t.elts):
+                raise _Raised("ValueError", t)
+            for x, y in zip(t.elts, vals):
+                self._bind(x.value if isinstance(x, ast.Starred) else x, y, env)
+        elif isinstance(t, ast.Attribute):
+            o = self.val(t.value, env)
+            if isinstance(o, _Obj):
+                o.fields[t.attr] = v
+            elif o is None:
+                raise _Raised("AttributeError", t)
+        elif isinstance(t, ast.Subscript):
+            o = self.val(t.value, env)
+            if isinstance(t.slice, ast.Slice):
+                if isinstance(o, list):
+                    lo, hi = (None if x is None else self.val(x, env) for x in (t.slice.lower, t.slice.upper))
+                    o[lo:hi] = self._iterable(v, t)
+                return
+            k = self.val(t.slice, env)
+            if isinstance(o, (list, dict)):
+                try:
+                    o[k] = v
+                except (IndexError, TypeError) as x:
+                    raise _Raised(type(x).__name__, t)
+
+    def _matches(self, h, exc):
+        if h.type is None:
+            return True
+        names = {last_attr(t) for t in (h.type.elts if isinstance(h.type, ast.Tuple) else [h.type])}
+        return bool(names & ({exc.name} | _CATCH_ALL)) if exc.name not in ("KeyboardInterrupt", "SystemExit", "GeneratorExit") else bool(names & {exc.name, "BaseException"})
+
+    def run(self, stmts, env):
+        for s in stmts:
+            self.steps += 1
+            if self.steps > self.MAX_STEPS:
+                raise _Cannot("step limit of the simulation exceeded")
+            if isinstance(s, ast.Expr):
+                if not isinstance(s.value, ast.Constant):
+                    self.val(s.value, env)
+            elif isinstance(s, ast.Assign):
+                v = self.val(s.value, env)
+                for t in s.targets:
+                    self._bind(t, v, env)
+            elif isinstance(s, ast.AnnAssign):
+                if s.value is not None:
+                    self._bind(s.target, self.val(s.value, env), env)
+            elif isinstance(s, ast.AugAssign):
+                cur = self.val(ast.copy_location(_load(s.target), s), env)
+                v = self.val(s.value, env)
+                if isinstance(cur, list) and isinstance(s.op, ast.Add):
+                    cur.extend(self._iterable(v, s.value))
+                    new = cur
+                elif type(s.op) in _SIM_BINOPS and not any(isinstance(x, (_Opaque, _Obj, _Sym)) for x in (cur, v)):
+                    try:
+                        new = _SIM_BINOPS[type(s.op)](cur, v)
+                    except Exception as x:  # noqa: BLE001
+                        raise _Raised(type(x).__name__, s)
+                else:
+                    new = _Opaque(u(s))
+                self._bind(s.target, new, env)
+            elif isinstance(s, ast.If):
+                self.run(s.body if self.truth(s.test, env) else s.orelse, env)
+            elif isinstance(s, (ast.For, ast.While)):
+                broke = False
+                n_iter = 0
+                items = self._iterable(self.val(s.iter, env), s.iter) if isinstance(s, ast.For) else None
+                while True:
+                    if items is not None:
+                        if n_iter >= len(items):
+                            break
+                        self._bind(s.target, items[n_iter], env)
+                    elif not self.truth(s.test, env):
+                        break
+                    n_iter += 1
+                    if n_iter > 200:
+                        raise _Cannot(f"loop at line {s.lineno} does not end on the representative values")
+                    try:
+                        self.run(s.body, env)
+                    except _Brk:
+                        broke = True
+                        break
+                    except _Cnt:
+                        continue
+                if not broke:
+                    self.run(s.orelse, env)
+            elif isinstance(s, ast.Return):
+                raise _Ret(self.val(s.value, env) if s.value is not None else None)
+            elif isinstance(s, ast.Raise):
+                if s.exc is None:
+                    if self.current:
+                        raise self.current[-1]
+                    raise _Raised("RuntimeError", s)
+                x = s.exc.func if isinstance(s.exc, ast.Call) else s.exc
+                if isinstance(s.exc, ast.Call):
+                    for a in list(s.exc.args) + [k.value for k in s.exc.keywords]:
+                        self.val(a, env)
+                raise _Raised(last_attr(x) or "Exception", s)
+            elif isinstance(s, ast.Break):
+                raise _Brk()
+            elif isinstance(s, ast.Continue):
+                raise _Cnt()
+            elif isinstance(s, ast.Try):
+                pending = None
+                try:
+                    try:
+                        self.run(s.body, env)
+                    except _Raised as x:
+                        for h in s.handlers:
+                            if self._matches(h, x):
+                                if h.name:
+                                    env[h.name] = _Obj(cls=x.name, name=f"exception {x.name}")
+                                self.current.append(x)
+                                try:
+                                    self.run(h.body, env)
+                                finally:
+                                    self.current.pop()
+                                break
+                        else:
+                            raise
+                    else:
+                        self.run(s.orelse, env)
+                except (_Raised, _Ret, _Brk, _Cnt) as x:
+                    pending = x  # `finally` runs for every way of leaving the statement (normal, return, break, exception)
+                self.run(s.finalbody, env)
+                if pending is not None:
+                    raise pending
+            elif isinstance(s, ast.With):
+                for it in s.items:
+                    v = self.val(it.context_expr, env)
+                    if it.optional_vars is not None:
+                        self._bind(it.optional_vars, v, env)
+                self.run(s.body, env)
+            elif isinstance(s, ast.Delete):
+                for t in s.targets:
+                    if isinstance(t, ast.Name):
+                        env.pop(t.id, None)
+                    elif isinstance(t, ast.Subscript):
+                        o = self.val(t.value, env)
+                        if isinstance(t.slice, ast.Slice):
+                            if isinstance(o, list):
+                                lo, hi = (None if x is None else self.val(x, env) for x in (t.slice.lower, t.slice.upper))
+                                del o[lo:hi]
+                            continue
+                        k = self.val(t.slice, env)
+                        if isinstance(o, (list, dict)):
+                            try:
+                                del o[k]
+                            except (KeyError, IndexError, TypeError) as x:
+                                raise _Raised(type(x).__name__, s)
+                    elif isinstance(t, ast.Attribute):
+                        o = self.val(t.value, env)
+                        if isinstance(o, _Obj):
+                            o.fields.pop(t.attr, None)
+            elif isinstance(s, (ast.FunctionDef, ast.AsyncFunctionDef, ast.ClassDef)):
+                env[s.name] = _Opaque(f"local definition {s.name}")
+            elif isinstance(s, (ast.Pass, ast.Assert, ast.Import, ast.ImportFrom, ast.Global, ast.Nonlocal)):
+                pass
+            else:
+                raise _Cannot(f"statement kind {type(s).__name__} at line {getattr(s, 'lineno', '?')}")
+
+
+def _load(t):
+    """the target of an augmented assignment as a load expression"""
+    return ast.parse(u(t), mode="eval").body
+
+
+def _callback(name):
+    """a callable stand-in handed to the simulated code (a `transition` callback): calling it is recorded as an event named `name`"""
+    def cb(sim, args, kwargs, e):
+        return sim._event(name, name, args, kwargs, e)
+    cb._sim_callback = True
+    return cb
+
+
+def _eq(a, b):
+    """a simulated value equals the (string) stand-in b; never a decision over an unknown value"""
+    return isinstance(a, str) and isinstance(b, str) and a == b
+
+
+def _payload_is(v, clsname):
+    """the value is an instance constructed as <...>.clsname(...)"""
+    return isinstance(v, _Obj) and v.cls is not None and v.cls.rsplit(".", 1)[-1] == clsname
+
+
+# ---------------------------------------------------------------------------------------------------------------------------------------------------------------
+# local engine 2: INLINING of helper methods. `_Inliner(...).expand(func)` returns a copy of a method in which calls of methods of the same class (MRO-resolved `self.m(...)`,
+# optionally functions of the same module) are replaced by the callee's body: parameters are substituted (plain arguments) or bound to fresh locals, the callee's locals are
+# renamed (`x__3`), returns in tail position become an assignment to a result local. The copy has parent links, positions (of the original statements) and the module of the
+# original, so the CFG / guard / pattern helpers work on it unchanged; an "extract helper" refactoring is thereby invisible to a rule that analyses the expanded method.
+# Not inlined (the call stays as it is): recursive calls, decorated callees, generators, *args / **kwargs, callees with a return that is not in tail position.
+
+def _copy_ast(n):
+    if isinstance(n, list):
+        return [_copy_ast(x) for x in n]
+    if not isinstance(n, ast.AST):
+        return n
+    new = type(n)()
+    for f_ in n._fields:
+        if hasattr(n, f_):
+            setattr(new, f_, _copy_ast(getattr(n, f_)))
+    for a_ in n._attributes:
+        if hasattr(n, a_):
+            setattr(new, a_, getattr(n, a_))
+    for a_ in ("_synthetic_arm", "_from_constant"):
+        if hasattr(n, a_):
+            setattr(new, a_, getattr(n, a_))
+    return new
+
+
+def _atomic(e):
+    """an argument that may be substituted for every use of the parameter: a name, a constant, an attribute chain on a name"""
+    return isinstance(e, (ast.Name, ast.Constant)) or (isinstance(e, ast.Attribute) and dotted(e) is not None)
+
+
+def _tail_returns(stmts, retvar):
+    """returns in tail position of the statement list become `retvar = <value>` (in place)"""
+    if not stmts:
+        return
+    last = stmts[-1]
+    if isinstance(last, ast.Return):
+        v = last.value if last.value is not None else ast.copy_location(ast.Constant(value=None), last)
+        stmts[-1] = ast.copy_location(ast.Assign(targets=[ast.copy_location(ast.Name(id=retvar, ctx=ast.Store()), last)], value=v), last)
+    elif isinstance(last, ast.If):
+        _tail_returns(last.body, retvar)
+        _tail_returns(last.orelse, retvar)
+        if hasattr(last, "_synthetic_arm"):
+            del last._synthetic_arm  # the arm no longer jumps: it is an ordinary two-armed if now
+    elif isinstance(last, ast.Try) and not any(isinstance(x, ast.Return) for b in last.finalbody for x in source.walk_local(b)):
+        _tail_returns(last.orelse if last.orelse else last.body, retvar)
+        for h in last.handlers:
+            _tail_returns(h.body, retvar)
+    elif isinstance(last, ast.With):
+        _tail_returns(last.body, retvar)
+
+
+class _Inliner:
+    def __init__(self, table, ci, module_funcs=False, keep=(), max_depth=3):
+        self.table, self.ci, self.module_funcs, self.keep, self.max_depth = table, ci, module_funcs, set(keep), max_depth
+        self.counter = 0
+        self.inlined = []  # names of the callees that were expanded
+        self.handler_params = set()
+
+    # -- which calls ----------------------------------------------------------------------------------------------------------------------------------------
+    def _callee(self, call, selfname, stack, shadowed):
+        from sa.classes import decorator_names
+        f = call.func
+        callee = None
+        method = False
+        if isinstance(f, ast.Attribute) and isinstance(f.value, ast.Name) and (f.value.id == selfname or f.value.id == self.ci.name):
+            callee = self.table.method(self.ci, f.attr)
+            method = True
+        elif isinstance(f, ast.Name) and self.module_funcs and f.id not in shadowed and f.id not in self.keep \
+                and any(isinstance(x, ast.Name) and x.id in self.handler_params for x in list(call.args) + [k.value for k in call.keywords]):
+            # a function of the module that is handed the actor, the message or the sender works on behalf of the handler; functions over plain data stay terms
+            c = self.ci.module.index().get(f.id)
+            callee = c if isinstance(c, ast.FunctionDef) else None
+        if callee is None or not isinstance(callee, ast.FunctionDef) or any(callee is s for s in stack) or callee.name in self.keep:
+            return None
+        decos = [d.split(".")[-1] for d in decorator_names(callee)]
+        static = "staticmethod" in decos
+        if any(d != "staticmethod" for d in decos):
+            return None
+        a = callee.args
+        if a.vararg is not None or a.kwarg is not None or any(isinstance(x, ast.Starred) for x in call.args) or any(k.arg is None for k in call.keywords):
+            return None
+        if any(isinstance(n, (ast.Yield, ast.YieldFrom, ast.Await, ast.Global, ast.Nonlocal)) for n in ast.walk(callee)):
+            return None
+        if sum(1 for n in ast.walk(callee) if isinstance(n, ast.stmt)) > 80:
+            return None
+        names = [x.arg for x in a.posonlyargs + a.args]
+        own_self = None
+        if method and not static:
+            if not names:
+                return None
+            own_self, names = names[0], names[1:]
+        bound = {}
+        for i, x in enumerate(call.args):
+            if i >= len(names):
+                return None
+            bound[names[i]] = x
+        kwonly = [x.arg for x in a.kwonlyargs]
+        for k in call.keywords:
+            if k.arg in bound or (k.arg not in names and k.arg not in kwonly):
+                return None
+            bound[k.arg] = k.value
+        defaults = dict(zip(names[len(names) - len(a.defaults):], a.defaults))
+        defaults.update({x.arg: d for x, d in zip(a.kwonlyargs, a.kw_defaults) if d is not None})
+        for p in names + kwonly:
+            if p not in bound:
+                if p not in defaults:
+                    return None
+                bound[p] = defaults[p]
+        return callee, own_self, bound
+
+    def _body_of(self, callee, own_self, bound, selfname, at):
+        """(prefix statements, result expression or None): the callee's body with its locals renamed, parameters substituted / bound and tail returns turned into an assignment;
+        None if a return is left that is not in tail position."""
+        self.counter += 1
+        k = self.counter
+        body = [_copy_ast(s) for s in callee.body]
+        if body and isinstance(body[0], ast.Expr) and isinstance(body[0].value, ast.Constant) and isinstance(body[0].value.value, str):
+            body = body[1:]
+        stored = {n.id for s in body for n in ast.walk(s) if isinstance(n, ast.Name) and isinstance(n.ctx, (ast.Store, ast.Del))}
+        stored |= {n.name for s in body for n in ast.walk(s) if isinstance(n, ast.ExceptHandler) and n.name}
+        stored |= {n.name for s in body for n in ast.walk(s) if isinstance(n, (ast.FunctionDef, ast.AsyncFunctionDef, ast.ClassDef))}
+        ret = f"result__{k}"
+        single = len(body) == 1 and isinstance(body[0], ast.Return) and body[0].value is not None
+        if not single:
+            _tail_returns(body, ret)
+            if any(isinstance(n, ast.Return) for s in body for n in source.walk_local(s)):
+                return None
+        has_result = single or any(isinstance(n, ast.Name) and n.id == ret for s in body for n in ast.walk(s))
+        subst, prefix = {}, []
+        uses = {}
+        for s in body:
+            for n in ast.walk(s):
+                if isinstance(n, ast.Name) and isinstance(n.ctx, ast.Load):
+                    uses[n.id] = uses.get(n.id, 0) + 1
+        attr_stores = {n.attr for s in body for n in ast.walk(s) if isinstance(n, ast.Attribute) and isinstance(n.ctx, (ast.Store, ast.Del))}
+        for p, arg in bound.items():
+            plain = _atomic(arg) and not (isinstance(arg, ast.Attribute) and any(isinstance(x, ast.Attribute) and x.attr in attr_stores for x in ast.walk(arg)))
+            if p not in stored and (plain or (single and uses.get(p, 0) == 1)):
+                subst[p] = arg
+            else:
+                prefix.append(ast.copy_location(ast.Assign(targets=[ast.copy_location(ast.Name(id=f"{p}__{k}", ctx=ast.Store()), at)], value=_copy_ast(arg)), at))
+        rename = {n: f"{n}__{k}" for n in stored | set(bound)}
+        if own_self is not None and own_self != selfname:
+            rename[own_self] = selfname
+
+        class R(ast.NodeTransformer):
+            def visit_Name(self, n):
+                if n.id in subst and isinstance(n.ctx, ast.Load):
+                    return _copy_ast(subst[n.id])
+                if n.id in rename:
+                    n.id = rename[n.id]
+                return n
+
+            def visit_arg(self, n):
+                if n.arg in rename:
+                    n.arg = rename[n.arg]
+                return n
+
+            def visit_ExceptHandler(self, n):
+                self.generic_visit(n)
+                if n.name in rename:
+                    n.name = rename[n.name]
+                return n
+
+            def visit_FunctionDef(self, n):
+                self.generic_visit(n)
+                if n.name in rename:
+                    n.name = rename[n.name]
+                return n
+
+        body = [R().visit(s) for s in body]
+        self.inlined.append(callee.name)
+        if single:
+            return prefix, body[0].value
+        return prefix + body, (ast.copy_location(ast.Name(id=ret, ctx=ast.Load()), at) if has_result else None)
+
+    # -- rewriting ------------------------------------------------------------------------------------------------------------------------------------------
+    def _first_candidate(self, expr, selfname, stack, shadowed):
+        """(call node, its holder, field, index) of the first expandable call of the expression in evaluation order, outside lambdas / comprehensions / conditionally evaluated operands"""
+        found = []
+
+        def rec(n, holder, field, idx):
+            if found or isinstance(n, (ast.Lambda, ast.ListComp, ast.SetComp, ast.DictComp, ast.GeneratorExp)):
+                return
+            if isinstance(n, ast.BoolOp):
+                rec(n.values[0], n.values, None, 0)
+                return
+            if isinstance(n, ast.IfExp):
+                rec(n.test, n, "test", None)
+                return
+            for f_, v in ast.iter_fields(n):
+                if isinstance(v, list):
+                    for i, x in enumerate(v):
+                        if isinstance(x, ast.AST):
+                            rec(x, v, None, i)
+                elif isinstance(v, ast.AST):
+                    rec(v, n, f_, None)
+            if not found and isinstance(n, ast.Call) and self._callee(n, selfname, stack, shadowed) is not None:
+                found.append((n, holder, field, idx))
+
+        class Root:
+            pass
+
+        root = Root()
+        root.e = expr
+        rec(expr, root, "e", None)
+        return (found[0], root) if found else (None, root)
+
+    def _expand_expr(self, expr, selfname, stack, shadowed, depth):
+        """(prefix statements, new expression)"""
+        prefix = []
+        for _ in range(12):
+            if depth >= self.max_depth:
+                break
+            hit, root = self._first_candidate(expr, selfname, stack, shadowed)
+            if hit is None:
+                break
+            call, holder, field, idx = hit
+            callee, own_self, bound = self._callee(call, selfname, stack, shadowed)
+            got = self._body_of(callee, own_self, bound, selfname, call)
+            if got is None:
+                # not expandable: hide it from the next search
+                self.keep.add(callee.name)
+                continue
+            pre, res = got
+            pre = self._expand_block(pre, selfname, stack + [callee], shadowed, depth + 1)
+            if res is None:
+                res = ast.copy_location(ast.Constant(value=None), call)
+            elif not isinstance(res, ast.Name):
+                p2, res = self._expand_expr(res, selfname, stack + [callee], shadowed, depth + 1)
+                pre += p2
+            prefix += pre
+            if field is not None:
+                setattr(holder, field, res)
+            else:
+                holder[idx] = res
+            expr = root.e
+        return prefix, expr
+
+    def _expand_block(self, stmts, selfname, stack, shadowed, depth):
+        out = []
+        for s in stmts:
+            headers = []
+            if isinstance(s, (ast.Expr, ast.Assign, ast.AugAssign, ast.AnnAssign, ast.Return)) and getattr(s, "value", None) is not None:
+                headers = ["value"]
+            elif isinstance(s, ast.If):
+                headers = ["test"]
+            elif isinstance(s, ast.For):
+                headers = ["iter"]
+            for h in headers:
+                pre, new = self._expand_expr(getattr(s, h), selfname, stack, shadowed, depth)
+                setattr(s, h, new)
+                out += pre
+            for f_ in ("body", "orelse", "finalbody"):
+                b = getattr(s, f_, None)
+                if isinstance(b, list) and b and isinstance(b[0], ast.stmt) and not isinstance(s, (ast.FunctionDef, ast.AsyncFunctionDef, ast.ClassDef)):
+                    setattr(s, f_, self._expand_block(b, selfname, stack, shadowed, depth))
+            for h in getattr(s, "handlers", []) or []:
+                h.body = self._expand_block(h.body, selfname, stack, shadowed, depth)
+            if isinstance(s, ast.Expr) and ((isinstance(s.value, ast.Constant) and s.value.value is None) or (isinstance(s.value, ast.Name) and s.value.id.startswith("result__"))):
+                continue  # what is left of a call statement whose callee was expanded
+            out.append(s)
+        return out
+
+    def expand(self, func):
+        new = _copy_ast(func)
+        ps = params_of(func)
+        selfname = ps[0] if ps else "self"
+        self.handler_params = set(ps)
+        shadowed = set(ps) | {n.id for n in ast.walk(func) if isinstance(n, ast.Name) and isinstance(n.ctx, ast.Store)}
+        new.body = self._expand_block(new.body, selfname, [func], shadowed, 0) or [ast.copy_location(ast.Pass(), func)]
+        ast.fix_missing_locations(new)
+        source.set_parents(new)
+        new._parent = source.parent(func)
+        mod = getattr(func, "_module", None)
+        for n in ast.walk(new):
+            n._module = mod
+        new._expanded_from = func
+        new._inlined = tuple(self.inlined)
+        return new
+
+
+def _init_fields(ci):
+    """self.<attr> = <literal> assignments of the class's __init__: the state a fresh actor starts from"""
+    out = {}
+    init = ci.methods.get("__init__")
+    for n in (walk_body(init) if init is not None else []):
+        if isinstance(n, ast.Assign) and len(n.targets) == 1 and is_self_attr(n.targets[0]):
+            try:
+                out[n.targets[0].attr] = ast.literal_eval(n.value)
+            except (ValueError, SyntaxError):
+                pass
+    return out
+
+
+def _children_attr(se_x, RA):
+    """the attribute in which the mechanic keeps one slot per awaited node actor: the self attribute that StartEngine sizes by a len(...) over the target hosts"""
+    defs = source.local_defs(se_x)
+    attrs = {t.attr for n in walk_body(se_x) if isinstance(n, ast.Assign) for t in n.targets if is_self_attr(t)
+             and any(isinstance(c, ast.Call) and last_attr(c.func) == "len" for c in ast.walk(source.inline_node(n.value, defs)))}
+    if len(attrs) == 1:
+        return next(iter(attrs))
+    if len(attrs) > 1:
+        raise AnchorMissing(f"MechanicActor.receiveMsg_StartEngine sizes several attributes by a len(...): {sorted(attrs)}")
+    raise AnchorMissing("MechanicActor.receiveMsg_StartEngine: no attribute is sized by the number of target hosts (self.<children> = [...] * len(...))")
+
+
+def _ack_roles(MA, f):
+    """parameter of the transition helper per role, derived from how the acknowledgement handlers of the mechanic call it: the parameter that receives the handler's message /
+    its sender / a bound method (the transition) / the two status constants (in order: expected, new). Positions are the fallback."""
+    ps = params_of(f)[1:]
+    roles = {}
+    for m in MA.methods.values():
+        hps = params_of(m)
+        if not m.name.startswith("receiveMsg_") or len(hps) < 3:
+            continue
+        for c in source.calls_in(m, attr=f.name):
+            consts = []
+            for p, a in source.bind_args(c, f).items():
+                if isinstance(a, ast.Name) and a.id == hps[1]:
+                    roles.setdefault("msg", p)
+                elif isinstance(a, ast.Name) and a.id == hps[2]:
+                    roles.setdefault("sender", p)
+                elif is_self_attr(a) or isinstance(a, ast.Lambda):
+                    roles.setdefault("transition", p)
+                elif isinstance(a, ast.Constant) and isinstance(a.value, str):
+                    consts.append(p)
+            consts.sort(key=ps.index)
+            if len(consts) == 2:
+                roles.setdefault("expected", consts[0])
+                roles.setdefault("new", consts[1])
+    if len(ps) >= 5:
+        for role, p in zip(("sender", "msg", "expected", "new", "transition"), ps):
+            roles.setdefault(role, p)
+    if len(set(roles.values())) != 5 or set(roles) != {"sender", "msg", "expected", "new", "transition"}:
+        raise AnchorMissing(f"{f.name}: parameters for sender / message / expected status / new status / transition (found {roles})")
+    return roles
+
+
+def _accumulator_source(name, fn):
+    """`name = []` ... `for T in ITER: ...; name.append(x)` with exactly one append per iteration and no other change of the list: ITER (the list has one element per element of ITER)"""
+    inits = [n for n in walk_body(fn) if isinstance(n, ast.Assign) and any(isinstance(t, ast.Name) and t.id == name for t in n.targets)]
+    if len(inits) != 1 or not ((isinstance(inits[0].value, ast.List) and not inits[0].value.elts) or (isinstance(inits[0].value, ast.Call) and u(inits[0].value) == "list()")):
+        return None
+    muts = [n for n in walk_body(fn) if isinstance(n, ast.Call) and isinstance(n.func, ast.Attribute) and isinstance(n.func.value, ast.Name) and n.func.value.id == name
+            and n.func.attr in ("append", "extend", "insert", "pop", "remove", "clear", "sort", "reverse")]
+    other = [n for n in walk_body(fn) if (isinstance(n, (ast.AugAssign, ast.Delete)) or (isinstance(n, ast.Assign) and n is not inits[0]))
+             and any(isinstance(x, ast.Name) and x.id == name and isinstance(x.ctx, (ast.Store, ast.Del)) for x in ast.walk(n))]
+    if len(muts) != 1 or muts[0].func.attr != "append" or other:
+        return None
+    loop = source.enclosing(muts[0], (ast.For, ast.While))
+    if not isinstance(loop, ast.For) or source.enclosing_func(loop) is not fn:
+        return None
+    g = cfg_of(fn)
+    head, reg = g.node_of(loop), g.node_of(muts[0])
+    if not all(head.id not in g.reachable([s_], avoid=[reg]) or s_ is reg for s_ in g.edge_targets(head, "iter")):
+        return None  # an iteration can end without the append (filtering)
+    if any(isinstance(n, ast.Break) for n in ast.walk(loop)):
+        return None
+    return loop.iter
+
+
+def _card_source(expr, fn):
+    """the expression that has as many elements as `expr` (a fresh copy, single-assignment locals of fn inlined): wrappers that keep the number of elements are stripped
+    (.items() / .keys() / .values(), list / tuple / sorted / enumerate / reversed / iter), a comprehension without conditions stands for its iterable, a list that is filled by one
+    append per iteration of a loop stands for the loop's iterable."""
+    defs = source.local_defs(fn)
+    e = expr
+    for _ in range(16):
+        if isinstance(e, ast.Name) and e.id in defs:
+            acc = _accumulator_source(e.id, fn)
+            e = acc if acc is not None else defs[e.id]
+        elif isinstance(e, ast.Call) and isinstance(e.func, ast.Attribute) and e.func.attr in ("items", "keys", "values") and not e.args and not e.keywords:
+            e = e.func.value
+        elif isinstance(e, ast.Call) and isinstance(e.func, ast.Name) and e.func.id in ("list", "tuple", "sorted", "enumerate", "reversed", "iter") and e.args:
+            e = e.args[0]
+        elif isinstance(e, (ast.ListComp, ast.GeneratorExp)) and len(e.generators) == 1 and not e.generators[0].ifs:
+            e = e.generators[0].iter
+        else:
+            break
+    return source.inline_node(e, defs)
+
+
+def _inlined_names(fn_x):
+    """names of the methods whose bodies were expanded into fn_x (recorded by the inliner)"""
+    return set(getattr(fn_x, "_inlined", ()))
+
+
+# library calls that do not fail in practice: a statement such as `started = time.perf_counter()` in front of a handler's try block (an additive timing / counting feature) is
+# not a place where the start of the nodes can go wrong
+_NEVER_FAILS = {"time.time", "time.perf_counter", "time.perf_counter_ns", "time.monotonic", "time.monotonic_ns", "time.process_time", "datetime.datetime.now", "datetime.datetime.utcnow",
+                "datetime.now", "datetime.utcnow", "os.getpid", "uuid.uuid4", "threading.get_ident", "itertools.count", "collections.Counter", "Counter"}
+
+
+def _logging_event(ev):
+    """the recorded call is (part of) a logging call: logger.info(...), logging.getLogger(__name__).debug(...) including the getLogger(...) inside it"""
+    from sa.classes import is_logging_call
+    n = ev.node
+    while n is not None and not isinstance(n, ast.stmt):
+        if is_logging_call(n):
+            return True
+        n = source.parent(n)
+    return False
 
 
 def run(chk):
@@ -180,7 +1205,10 @@ def run(chk):
         "EngineStarted/EngineStopped, agreement of expected child count and created node actors, the external-cluster bypass, failure reporting "
         "for StartNodes and daemon departure, and the stop order / once-only typestate; that the dispatcher stays subscribed to registration changes while the hosts start "
         "their nodes, that the exit of a node mechanic travels up the creation chain to a BenchmarkFailure, and that every launcher's start() stops the nodes already started "
-        "when a later one fails."
+        "when a later one fails. Roles (which attribute counts the acknowledgements, holds the external flag, parks the start messages, holds the mechanic) are derived from data "
+        "flow; the acknowledgement helper, the dispatcher's convention-update handler, the node mechanic's StartNodes / StopNodes / exit handling and the ChildActorExited handlers "
+        "are evaluated by interpreting their statements on stand-in values (calls into helper methods of the class are followed, every other call is recorded; failures are "
+        "injected call by call); CFG rules run on copies of the methods with the helper methods of the class expanded in place."
     )
     chk.not_decided = "interleavings of remote daemons joining, real process termination, Thespian delivery."
 
@@ -196,176 +1224,443 @@ def run(chk):
     f = RA.methods.get("transition_when_all_children_responded")
     if f is None:
         raise AnchorMissing("RallyActor.transition_when_all_children_responded")
-    ps = params_of(f)
-    tparam = ps[-1]
-    defs = _local_defs(f)
-    g = cfg_of(f)
-    tcalls = [n for n in walk_body(f) if isinstance(n, ast.Call) and isinstance(n.func, ast.Name) and n.func.id == tparam]
-    chk.ob("O12.1", "transition() call sites in the helper", len(tcalls) == 1, f, f"{len(tcalls)} call site(s)")
-    appends = [n for n in walk_body(f) if isinstance(n, ast.Call) and last_attr(n.func) == "append" and isinstance(n.func, ast.Attribute)
-               and is_self_attr(n.func.value) and n.args and isinstance(n.args[0], ast.Name) and n.args[0].id == ps[2]]
-    resp_attr = appends[0].func.value.attr if appends else None
-    for tc in tcalls:
-        ok_guard = False
-        detail = "no guarding comparison between len(responses) and len(children)"
-        for test, pol in guards(tc):
-            if not pol or not isinstance(test, ast.Compare) or len(test.ops) != 1:
-                continue
-            l, r = inline(test.left, defs), inline(test.comparators[0], defs)
-            sides = {l, r}
-            if f"len(self.{resp_attr})" in sides and "len(self.children)" in sides:
-                op = type(test.ops[0])
-                if op is ast.Eq or (op is ast.GtE and l == f"len(self.{resp_attr})") or (op is ast.LtE and r == f"len(self.{resp_attr})"):
-                    ok_guard = True
-                    detail = f"guard `{u(test)}` = `{l} {type(test.ops[0]).__name__} {r}`"
-                else:
-                    detail = f"guard `{u(test)}` uses operator {type(test.ops[0]).__name__} (lets a transition happen with missing acknowledgements)"
-        chk.ob("O12.1", "transition() guarded by responses == children", ok_guard, tc, detail)
-        # the count is read after the append
-        tn = g.node_of(tc)
-        app_nodes = [g.node_of(a) for a in appends]
-        ok = bool(app_nodes) and g.dominated_by_nodes(tn, app_nodes)
-        # and the local holding the count is assigned after the append
-        cnt_assigns = [n for n in walk_body(f) if isinstance(n, ast.Assign) and u(n.value) == f"len(self.{resp_attr})"]
-        ok = ok and all(g.dominated_by_nodes(g.node_of(c), app_nodes) for c in cnt_assigns)
-        chk.ob("O12.1", "this response is appended before it is counted", ok, tc, f"appends={len(appends)} count reads={len(cnt_assigns)}")
-        resets = [n for n in walk_body(f) if isinstance(n, ast.Assign) and any(is_self_attr(t, resp_attr) for t in n.targets)
-                  and isinstance(n.value, ast.List) and not n.value.elts]
-        ok = bool(resets) and g.dominated_by_nodes(tn, [g.node_of(r) for r in resets])
-        chk.ob("O12.1", "response list reset before transition()", ok, tc, f"resets={len(resets)}")
-        # expected status is checked
-        from sa import pat as _pat121
-        ok = any(isinstance(f_, ast.Call) and last_attr(f_.func) == "is_current_status_expected" for f_ in _pat121.fact_nodes(tc))  # a fact: either arm, guard clause or if/else
-        chk.ob("O12.1", "transition() only in the expected status", ok, tc, "guarded by is_current_status_expected" if ok else "status is not checked")
+    se = MA.methods.get("receiveMsg_StartEngine")
+    de = DI.methods.get("receiveMsg_StartEngine")
+    if se is None or de is None:
+        raise AnchorMissing("receiveMsg_StartEngine of MechanicActor/Dispatcher")
+    for owner, h_ in ((MA, se), (DI, de), (MA, MA.methods.get("receiveMsg_StopEngine")), (DI, DI.methods.get("receiveMsg_ActorSystemConventionUpdate")),
+                      (NM, NM.methods.get("receiveMsg_StartNodes"))):
+        if h_ is not None and (len(params_of(h_)) < 3 or h_.args.vararg is not None or h_.args.kwarg is not None):
+            raise AnchorMissing(f"{owner.name}.{h_.name}: a message handler with the signature (self, msg, sender) was expected")
+    se_x = _Inliner(model.table, MA, module_funcs=True).expand(se)
+    children_attr = _children_attr(se_x, RA)
+    roles = _ack_roles(MA, f)
+    init = _init_fields(RA)
+    if children_attr not in init:
+        raise AnchorMissing(f"RallyActor.__init__ does not initialise self.{children_attr} (the list of child actors the acknowledgements are counted against)")
+    MSG = _Obj(cls="NodesStarted", name="the acknowledgement being handled")
+
+    status_attr = [None]
+    _last_trace = [[]]
+
+    def ack_run(n, prior, placeholders, status="awaited", expected="awaited", resp_attr=None):
+        """the helper handles the (prior+1)-th acknowledgement of n children; children that have not responded yet are None placeholders (start) or known addresses (stop)"""
+        kids = [f"child-{i}" for i in range(prior + 1)] + [None if placeholders else f"child-{i}" for i in range(prior + 1, n)]
+        fields = dict(init)
+        fields.update({children_attr: kids})
+        if status_attr[0] is not None:
+            fields[status_attr[0]] = status
+        if resp_attr is not None:
+            fields[resp_attr] = [f"ack-{i}" for i in range(prior)]
+        me = _Obj(name="self", **{k: _snap(v) for k, v in fields.items()})
+        sim = _Sim(model.table, MA, me)
+        args = {roles["sender"]: kids[prior], roles["msg"]: MSG, roles["expected"]: expected, roles["new"]: "next", roles["transition"]: _callback("transition()")}
+        raised = None
+        try:
+            sim.call_method(f, kwargs=args)
+        except _Raised as x:
+            raised = x.name
+        _last_trace[0] = sim.trace
+        return [e for e in sim.trace if e.name == "transition()"], me, raised
+
+    try:
+        # which attribute holds the status: the one that is assigned the new-status parameter; else the one that takes the new status when the only child acknowledges and no
+        # particular status is expected (`[]`, as StopEngine passes it)
+        st_attrs = sorted({t.attr for n in walk_body(f) if isinstance(n, ast.Assign) and isinstance(n.value, ast.Name) and n.value.id == roles["new"] for t in n.targets if is_self_attr(t)})
+        if len(st_attrs) != 1:
+            _, me0, _ = ack_run(1, 0, False, expected=[])
+            st_attrs = [k for k, v in me0.fields.items() if isinstance(v, str) and v == "next"]
+        if len(st_attrs) != 1:
+            raise _Cannot(f"the new status is stored in {st_attrs or 'no attribute of the actor'} when the only child has responded")
+        status_attr[0] = st_attrs[0]
+        # which attribute collects the acknowledgements: the list the message parameter is added to; else the list in which the message shows up while the helper runs
+        resp_attrs = sorted({n.func.value.attr for n in walk_body(f) if isinstance(n, ast.Call) and isinstance(n.func, ast.Attribute) and n.func.attr in ("append", "insert", "extend")
+                             and is_self_attr(n.func.value) and any(isinstance(x, ast.Name) and x.id == roles["msg"] for a in n.args for x in ast.walk(a))})
+        if len(resp_attrs) != 1:
+            cbs0, me0, _ = ack_run(3, 0, True)
+            seen_in = [me0.fields] + [e.state for e in _last_trace[0]]
+            resp_attrs = sorted({k for st_ in seen_in for k, v in st_.items() if k != children_attr and isinstance(v, list) and any(x is MSG for x in v)})
+        if len(resp_attrs) != 1:
+            raise _Cannot(f"the acknowledgement being handled is recorded in {resp_attrs or 'no list attribute of the actor'}")
+        resp_attr = resp_attrs[0]
+        rows = []
+        for n, prior in ((2, 0), (2, 1), (1, 0), (3, 0), (3, 1), (3, 2), (4, 3)):
+            for placeholders in (True, False):
+                cbs, me, raised = ack_run(n, prior, placeholders, resp_attr=resp_attr)
+                rows.append((n, prior, placeholders, cbs, me, raised))
+        cbs_x, _, raised_x = ack_run(1, 0, True, status="another status", resp_attr=resp_attr)
+    except _Cannot as e:
+        chk.unknown("O12.1", f"{f.name} cannot be evaluated on representative acknowledgement counts: {e}", f)
+        rows = None
+    if rows is not None:
+        def show(r):
+            return f"{r[1] + 1} of {r[0]}" + (" (others still placeholders)" if r[2] and r[1] + 1 < r[0] else "")
+
+        last = [r for r in rows if r[1] + 1 == r[0]]
+        early = [r for r in rows if r[1] + 1 < r[0]]
+        bad = [r for r in last if r[0] > 1 and len(r[3]) != 1]
+        site = next((r[3][0].node for r in rows if r[3]), f)
+        chk.ob("O12.1", "transition() runs exactly once when the last child has responded", not bad, site,
+               f"evaluated for {', '.join(show(r) for r in last if r[0] > 1)}" if not bad else f"acknowledgement {show(bad[0])}: transition() runs {len(bad[0][3])} time(s)"
+               + (f", {bad[0][5]} raised" if bad[0][5] else ""))
+        bad = [r for r in early if r[3]]
+        chk.ob("O12.1", "transition() guarded by responses == children", not bad, bad[0][3][0].node if bad else site,
+               f"no transition for {', '.join(show(r) for r in early)}" if not bad else f"acknowledgement {show(bad[0])}: transition() runs although {bad[0][0] - bad[0][1] - 1} child(ren) "
+               "have not responded yet")
+        bad = [r for r in last if r[0] == 1 and len(r[3]) != 1]
+        chk.ob("O12.1", "this response is appended before it is counted", not bad, site,
+               "a single child: its acknowledgement is the one that completes the count" if not bad else f"a single child acknowledges: transition() runs {len(bad[0][3])} time(s) "
+               "(the response being handled is not part of the count)")
+        bad = [r for r in rows for e in r[3] if not (isinstance(e.state.get(resp_attr), list) and not e.state.get(resp_attr))]
+        chk.ob("O12.1", "response list reset before transition()", not bad, bad[0][3][0].node if bad else site,
+               f"self.{resp_attr} is empty when transition() runs" if not bad else f"self.{resp_attr} still holds {len(bad[0][3][0].state.get(resp_attr)) if isinstance(bad[0][3][0].state.get(resp_attr), list) else 'its'} response(s) when transition() runs")
+        chk.ob("O12.1", "transition() only in the expected status", not cbs_x, cbs_x[0].node if cbs_x else site,
+               f"another status: no transition ({raised_x or 'returns'})" if not cbs_x else "transition() runs although the actor is not in the expected status")
+
+    # ---- the externally-provisioned flag, by role ----------------------------------------------------------------------------------------------------
+    # The StartEngine message says whether the cluster is externally provisioned (field `external`). The FLAG is the attribute of the mechanic that StartEngine derives from that
+    # field (assigned from an expression over it, or a constant under a test over it). Tests are then DECIDED for "external" / "provisioned" on stand-in values (the flag attribute
+    # holds what the assignment gives for that case); a test that cannot be decided that way is not a test over the flag.
+    EXT_FIELD = "external"
+    sth = MA.methods.get("receiveMsg_StopEngine")
+    if sth is None:
+        raise AnchorMissing("MechanicActor.receiveMsg_StopEngine")
+    mp_se = params_of(se)[1]
+
+    def mentions_ext(e, mp=mp_se):
+        return any(isinstance(x, ast.Attribute) and x.attr == EXT_FIELD and isinstance(x.value, ast.Name) and x.value.id == mp for x in ast.walk(e))
+
+    from sa import pat as _patf
+    se_defs_x = source.local_defs(se_x)
+    flag_writes = {}
+    for n in walk_body(se_x):
+        if isinstance(n, ast.Assign) and any(is_self_attr(t) for t in n.targets):
+            v = source.inline_node(n.value, se_defs_x)
+            if mentions_ext(v) or (isinstance(v, ast.Constant) and isinstance(v.value, bool) and any(mentions_ext(source.inline_node(f_, se_defs_x)) for f_ in _patf.fact_nodes(n))):
+                for t in n.targets:
+                    if is_self_attr(t):
+                        flag_writes.setdefault(t.attr, []).append(n)
+    sth_closure = [fn for _, fn in model.method_closure(MA, sth)]
+    flag_read_in_stop = [n for fn in sth_closure for n in walk_body(fn) if is_self_attr(n) and n.attr in flag_writes and isinstance(n.ctx, ast.Load)]
+    if not flag_writes:
+        raise AnchorMissing(f"MechanicActor.receiveMsg_StartEngine: no attribute is derived from `{mp_se}.{EXT_FIELD}` (the externally-provisioned flag)")
+    flag = flag_read_in_stop[0].attr if flag_read_in_stop else sorted(flag_writes)[0]
+    flag_vals = {}
+    for ext in (True, False):
+        for n in flag_writes[flag]:
+            v = source.inline_node(n.value, se_defs_x)
+            if mentions_ext(v):
+                try:
+                    flag_vals[ext] = bool(_Sim(model.table, MA, _Obj(name="self")).val(v, {mp_se: _Obj(name=mp_se, **{EXT_FIELD: ext})}))
+                except (_Cannot, _Raised):
+                    pass
+            elif ext and isinstance(v, ast.Constant):
+                flag_vals.setdefault(True, v.value)  # a constant stored under a test over the field: what the flag holds for an external cluster
+
+    def flag_value(test, fn, ext):
+        """truth value of a test of method fn for an externally provisioned (ext=True) / a provisioned cluster; None if the stand-ins do not decide it"""
+        e_ = source.inline_node(test, source.local_defs(fn))
+        me = _Obj(name="self", **({flag: flag_vals[ext]} if ext in flag_vals else {}))
+        ps_ = params_of(fn)
+        env = {n.id: _Opaque(n.id) for n in ast.walk(fn) if isinstance(n, ast.Name) and isinstance(n.ctx, ast.Store)}
+        env.update({p_: _Opaque(p_) for p_ in ps_})
+        if ps_:
+            env[ps_[0]] = me
+        if fn.name == se.name and len(ps_) > 1:
+            env[ps_[1]] = _Obj(name=ps_[1], **{EXT_FIELD: ext})
+        try:
+            return bool(_Sim(model.table, MA, me).val(e_, env))
+        except (_Cannot, _Raised):
+            return None
+
+    def only_when_external(node, fn):
+        """the node runs only for an externally provisioned cluster: one of the conditions it runs under holds for external and fails for provisioned"""
+        return any(flag_value(t, fn, True) is pol and flag_value(t, fn, False) is (not pol) for t, pol in guards(node, path_sensitive=True))
+
+    def feasible(fn, ext):
+        """ids of the CFG nodes of fn that can run for an external (ext=True) / provisioned cluster: the edges that a decided test does not take are removed"""
+        g_ = cfg_of(fn)
+        dead = []
+        for n in walk_body(fn):
+            if isinstance(n, (ast.If, ast.While)):
+                v = flag_value(n.test, fn, ext)
+                if v is not None:
+                    taken = "true" if v else "false"
+                    for tn in g_.nodes_of(n):
+                        dead += [(tn.id, y, l_) for (y, l_) in g_.succ[tn.id] if l_ in ("true", "false") and l_ != taken]
+        return g_.reachable([g_.entry], avoid_edges=dead)
+
+    def final_status(fn_x, fallback):
+        """the status the provisioned path of a handler leaves the actor in: the last constant it stores into the status attribute"""
+        sa_ = status_attr[0] or "status"
+        g_ = cfg_of(fn_x)
+        live = feasible(fn_x, False)
+        stores = [n for n in walk_body(fn_x) if isinstance(n, ast.Assign) and any(is_self_attr(t, sa_) for t in n.targets) and isinstance(n.value, ast.Constant)
+                  and isinstance(n.value.value, str) and any(x.id in live for x in g_.nodes_of(n))]
+        last_ = [n for n in stores if not any(o is not n and g_.path_exists(g_.node_of(n), g_.node_of(o)) for o in stores)]
+        vals = {n.value.value for n in last_}
+        return next(iter(vals)) if len(vals) == 1 else fallback
+
+    sth_x = _Inliner(model.table, MA).expand(sth)
 
     # ---- O12.1b who constructs EngineStarted / EngineStopped -------------------------------------------
     chk.rule("O12.1b", "EngineStarted / EngineStopped are constructed only in a routine whose callers are the all-children transition of "
              "NodesStarted (status starting) / NodesStopped (status cluster_stopping), or the externally-provisioned branch", 2,
              "race control is told 'started' / 'stopped' from some other event")
-    spec = {"EngineStarted": ("receiveMsg_NodesStarted", "starting", "receiveMsg_StartEngine"),
-            "EngineStopped": ("receiveMsg_NodesStopped", "cluster_stopping", "receiveMsg_StopEngine")}
-    for msgname, (ack_handler, status, ext_handler) in spec.items():
-        sites = [n for m in repo.all_modules() for n in ast.walk(m.tree) if isinstance(n, ast.Call) and last_attr(n.func) == msgname
-                 and isinstance(source.parent(n), ast.Call)]
+    spec = {"EngineStarted": ("receiveMsg_NodesStarted", final_status(se_x, "starting"), "receiveMsg_StartEngine"),
+            "EngineStopped": ("receiveMsg_NodesStopped", final_status(sth_x, "cluster_stopping"), "receiveMsg_StopEngine")}
+
+    def is_handler(m):
+        return m.name.startswith("receive")
+
+    def refs_to(m):
+        return [(m2, n) for m2 in MA.methods.values() for n in walk_body(m2) if is_self_attr(n, m.name) and isinstance(n.ctx, ast.Load)]
+
+    def only_from(m, handler_name, seen=()):
+        """m is the handler itself, or a plain method all of whose uses are calls from such methods"""
+        if m.name == handler_name:
+            return True
+        if is_handler(m) or m in seen:
+            return False
+        rs = refs_to(m)
+        return bool(rs) and all(isinstance(source.parent(n), ast.Call) and source.parent(n).func is n and only_from(m2, handler_name, seen + (m,)) for m2, n in rs)
+
+    def use_ok(node, m, spec_, seen=()):
+        """[(verdict, text)] for a statement-level use (a direct call / the construction itself) located in method m: True legitimate, False not, None not recognised"""
+        ack_handler, status, ext_handler = spec_
+        if is_handler(m):
+            if m.name != ext_handler:
+                return [(False, f"reached directly from the handler {m.name} (bypasses the acknowledgement count)")]
+            ext = only_when_external(node, m)
+            return [(ext, f"direct call in {m.name} {'only for an externally provisioned cluster' if ext else 'NOT restricted to an externally provisioned cluster'}")]
+        if m in seen:
+            return []
+        rs = refs_to(m)
+        if not rs:
+            return [(None, f"{m.name} is not referenced inside {MA.name}")]
+        out = []
+        for m2, n in rs:
+            out += ref_ok(n, m2, spec_, seen + (m,))
+        return out
+
+    def ref_ok(n, m, spec_, seen=()):
+        """a reference `self.<routine>` (or a lambda) n inside method m"""
+        ack_handler, status, ext_handler = spec_
+        p = source.parent(n)
+        if isinstance(p, ast.Call) and p.func is n:
+            return use_ok(p, m, spec_, seen)
+        c = p if isinstance(p, ast.Call) else (source.parent(p) if isinstance(p, ast.keyword) else None)
+        if isinstance(c, ast.Call) and last_attr(c.func) == f.name:
+            bound = source.bind_args(c, f)
+            exp = bound.get(roles["expected"])
+            exp_v = source.inline_node(exp, source.local_defs(m)) if exp is not None else None
+            is_cb = bound.get(roles["transition"]) is n
+            from_ack = only_from(m, ack_handler)
+            ok = is_cb and from_ack and exp_v is not None and source.is_const(exp_v, status)
+            return [(ok, f"transition callback in {m.name} expected_status={u(exp_v) if exp_v is not None else None}" + ("" if from_ack else f" (not the handler {ack_handler})")
+                     + ("" if is_cb else " (not passed as the transition)"))]
+        return [(None, f"use in {m.name} that is neither a call nor the transition callback: {short(source.enclosing_stmt(n), 60)}")]
+
+    for msgname, spec_ in spec.items():
+        sites = source.package_calls(repo, msgname)
         if not sites:
             raise AnchorMissing(f"no construction of {msgname}")
         for s in sites:
             fn = source.enclosing_func(s)
             cls = source.enclosing_class(s)
+            lam = source.enclosing(s, ast.Lambda)
             inst = f"{msgname}() in {cls.name if cls else '?'}.{fn.name if fn else '?'}"
-            if cls is None or cls.name != "MechanicActor":
-                chk.ob("O12.1b", inst, False, s, "constructed outside MechanicActor")
+            if cls is None or cls.name != MA.name or fn is None:
+                chk.ob("O12.1b", inst, False, s, f"constructed outside {MA.name}")
                 continue
-            if fn.name.startswith("receive"):
-                chk.ob("O12.1b", inst, False, s, "constructed directly in a message handler (bypasses the acknowledgement count)")
-                continue
-            # callers / references of this routine inside the class
-            refs = []
-            for m in MA.methods.values():
-                for n in walk_body(m):
-                    if is_self_attr(n, fn.name) and isinstance(n.ctx, ast.Load):
-                        refs.append((m, n))
-            allok = bool(refs)
-            details = []
-            for m, n in refs:
-                p = source.parent(n)
-                if isinstance(p, ast.Call) and p.func is n:
-                    # direct call: must be in ext_handler under the external-true guard
-                    gs = guards(p)
-                    ext = any(pol and ("extern" in u(t)) for t, pol in gs)
-                    ok = m.name == ext_handler and ext
-                    details.append(f"direct call in {m.name} {'under external guard' if ext else 'NOT under the external guard'}")
-                elif isinstance(p, ast.Call) and last_attr(p.func) == "transition_when_all_children_responded":
-                    bound = source.bind_args(p, f)
-                    exp = bound.get("expected_status")
-                    ok = m.name == ack_handler and exp is not None and source.is_const(exp, status) and bound.get("transition") is n
-                    details.append(f"transition callback in {m.name} expected_status={u(exp) if exp is not None else None}")
-                elif isinstance(p, ast.keyword) and isinstance(source.parent(p), ast.Call) and last_attr(source.parent(p).func) == "transition_when_all_children_responded":
-                    c = source.parent(p)
-                    bound = source.bind_args(c, f)
-                    exp = bound.get("expected_status")
-                    ok = m.name == ack_handler and exp is not None and source.is_const(exp, status) and p.arg == "transition"
-                    details.append(f"transition callback in {m.name} expected_status={u(exp) if exp is not None else None}")
-                else:
-                    ok = False
-                    details.append(f"unrecognised use in {m.name}: {short(source.enclosing_stmt(n), 60)}")
-                allok = allok and ok
-            chk.ob("O12.1b", inst, allok, s, "; ".join(details))
+            meth = fn
+            while source.enclosing_func(meth) is not None:
+                meth = source.enclosing_func(meth)
+            if lam is not None and source.enclosing_func(lam) is fn:
+                verdicts = ref_ok(lam, meth, spec_)  # built inside a lambda: what matters is where the lambda goes
+            elif meth is not fn:
+                verdicts = [(None, f"constructed in the nested function {fn.name} of {meth.name}")]
+            else:
+                verdicts = use_ok(s, fn, spec_)
+            details = "; ".join(t for _, t in verdicts)
+            if any(v is False for v, _ in verdicts) or (verdicts and all(v is True for v, _ in verdicts)):
+                chk.ob("O12.1b", inst, all(v is True for v, _ in verdicts), s, details)
+            else:
+                chk.unknown("O12.1b", f"{inst}: {details or 'no use found'}", s)
 
     # ---- O12.1c sibling agreement on the child count ------------------------------------------------------
     chk.rule("O12.1c", "the number of acknowledgements MechanicActor waits for and the number of node actors the Dispatcher creates are computed by the "
              "same function chain over the same host list; every Dispatcher loop iteration registers exactly one node actor (now or when its remote joins)", 3,
              "several nodes per host / several hosts: the mechanic waits for fewer (early 'started') or more (hang) acknowledgements than node actors exist")
-    se = MA.methods.get("receiveMsg_StartEngine")
-    de = DI.methods.get("receiveMsg_StartEngine")
-    if se is None or de is None:
-        raise AnchorMissing("receiveMsg_StartEngine of MechanicActor/Dispatcher")
-    sdefs, ddefs = _local_defs(se), _local_defs(de)
-    child_assign = [n for n in walk_body(se) if isinstance(n, ast.Assign) and any(is_self_attr(t, "children") for t in n.targets)]
-    chain_m = None
-    for n in child_assign:
-        v = inline_node(n.value, sdefs)
-        for c in ast.walk(v):
-            if isinstance(c, ast.Call) and last_attr(c.func) == "len":
-                chain_m = call_chain(c)
-    loops = [n for n in walk_body(de) if isinstance(n, ast.For) and any(isinstance(c, ast.Call) and last_attr(c.func) == "createActor" for c in ast.walk(n))]
-    chain_d = None
-    if loops:
-        it = inline_node(loops[0].iter, ddefs)
-        if isinstance(it, ast.Call) and last_attr(it.func) in ("items", "keys", "values"):
-            it = it.func.value
-        chain_d = call_chain(it)
-    if chain_m is None or chain_d is None:
+    de_x = _Inliner(model.table, DI, module_funcs=True).expand(de)
+    cu = DI.methods.get("receiveMsg_ActorSystemConventionUpdate")
+    if cu is None:
+        raise AnchorMissing("Dispatcher.receiveMsg_ActorSystemConventionUpdate")
+    sdefs, ddefs = source.local_defs(se_x), source.local_defs(de_x)
+    # roles of the Dispatcher's attributes: PARKED = the list to which (node actor, start message) pairs are appended (something built from createActor(...));
+    # DEFERRED = the map under whose entries the start messages of hosts whose daemon has not joined yet are kept (the other self attribute the fan-out loop appends to)
+    parked = set()
+    for f_ in DI.methods.values():
+        fdefs = _local_defs(f_)
+        for c in source.calls_in(f_, attr="append"):
+            if isinstance(c.func, ast.Attribute) and is_self_attr(c.func.value) and c.args \
+                    and any(isinstance(x, ast.Call) and last_attr(x.func) == "createActor" for x in ast.walk(inline_node(c.args[0], fdefs))):
+                parked.add(c.func.value.attr)
+    if len(parked) != 1:
+        raise AnchorMissing(f"Dispatcher: the attribute in which created node actors are parked together with their start message (found {sorted(parked)})")
+    parked_attr = next(iter(parked))
+
+    def self_attrs_in(e):
+        return {x.attr for x in ast.walk(e) if is_self_attr(x)}
+
+    def is_registration(c):
+        """an append to the parked list or to an entry of another attribute of the dispatcher"""
+        return isinstance(c, ast.Call) and isinstance(c.func, ast.Attribute) and c.func.attr == "append" and bool(self_attrs_in(c.func.value))
+
+    loops = [n for n in walk_body(de_x) if isinstance(n, ast.For) and any(is_registration(c) for c in ast.walk(n))]
+    loops = [n for n in loops if not any(o is not n and any(x is n for x in ast.walk(o)) for o in loops)]  # outermost
+    deferred = {a for lp in loops for c in ast.walk(lp) if is_registration(c) for a in self_attrs_in(c.func.value)} - parked
+    child_assign = [n for n in walk_body(se_x) if isinstance(n, ast.Assign) and any(is_self_attr(t, children_attr) for t in n.targets)]
+    lens = [c for n in child_assign for c in ast.walk(source.inline_node(n.value, sdefs)) if isinstance(c, ast.Call) and last_attr(c.func) == "len" and len(c.args) == 1]
+    if not lens or not loops:
         raise AnchorMissing("child-count expression in MechanicActor.receiveMsg_StartEngine or node loop in Dispatcher.receiveMsg_StartEngine")
-    ok = chain_m[0][1:] == chain_d[0] and last_attr(chain_d[1]) == "hosts" and isinstance(chain_d[1], ast.Attribute) \
-        and isinstance(chain_d[1].value, ast.Name) and chain_d[1].value.id == params_of(de)[1]
-    chk.ob("O12.1c", "expected children vs created node actors", ok, child_assign[0], f"mechanic: {'∘'.join(chain_m[0])}({u(chain_m[1])}); dispatcher iterates {'∘'.join(chain_d[0])}({u(chain_d[1])})")
-    # msg.hosts = hosts precedes the send to the dispatcher
-    hs = [n for n in walk_body(se) if isinstance(n, ast.Assign) and any(isinstance(t, ast.Attribute) and t.attr == "hosts" for t in n.targets)]
-    sends = [c for c in source.calls_in(se, attr="send") if any(isinstance(x, ast.Call) and last_attr(x.func) == "createActor" for x in ast.walk(c))]
-    gse = cfg_of(se)
-    ok = bool(hs) and bool(sends) and inline(hs[0].value, sdefs) == u(chain_m[1]) and gse.dominated_by_nodes(gse.node_of(sends[0]), [gse.node_of(hs[0])])
-    chk.ob("O12.1c", "the dispatcher receives the same host list", ok, hs[0] if hs else se, f"{short(hs[0], 40) if hs else 'no hosts assignment'} precedes {short(sends[0], 50) if sends else 'no send'}")
-    # each loop iteration: createActor appended to pending or submsg appended to remotes
-    gd = cfg_of(de)
+    src_m = _card_source(lens[-1].args[0], se_x)
+    src_d = _card_source(loops[0].iter, de_x)
+    chain_m, chain_d = call_chain(src_m), call_chain(src_d)
+    dmp = params_of(de)[1]
+    hosts_attr = chain_d[1].attr if isinstance(chain_d[1], ast.Attribute) and isinstance(chain_d[1].value, ast.Name) and chain_d[1].value.id == dmp else None
+    # msg.<hosts> = <the host list the mechanic counts> precedes the send to the dispatcher
+    hs = [n for n in walk_body(se_x) if isinstance(n, ast.Assign) and any(isinstance(t, ast.Attribute) and isinstance(t.value, ast.Name) and t.value.id == mp_se and t.attr == hosts_attr for t in n.targets)]
+    text = f"mechanic: len∘{'∘'.join(chain_m[0])}({u(chain_m[1])}); dispatcher iterates {'∘'.join(chain_d[0])}({u(chain_d[1])})"
+    if hosts_attr is None or not (isinstance(chain_m[1], (ast.Name, ast.Attribute, ast.Call)) and all(chain_m[0]) and all(chain_d[0])):
+        chk.unknown("O12.1c", f"the two counts are not function chains over the host list of the start message: {text}", child_assign[0])
+    else:
+        chk.ob("O12.1c", "expected children vs created node actors", chain_m[0] == chain_d[0], child_assign[0], text)
+    sends = [c for c in source.calls_in(se_x, attr="send") if c.args and any(isinstance(x, ast.Call) and last_attr(x.func) == "createActor" for x in ast.walk(source.inline_node(c.args[0], sdefs)))]
+    gse = cfg_of(se_x)
+    if not hs or not sends:
+        chk.unknown("O12.1c", f"the assignment of the host list to the start message ({mp_se}.{hosts_attr} = ...) / the send to the created dispatcher was not found in {se.name}", se)
+    else:
+        ok = source.inline(hs[0].value, sdefs) == u(chain_m[1]) and all(gse.dominated_by_nodes(gse.node_of(c), [gse.node_of(h) for h in hs]) for c in sends)
+        chk.ob("O12.1c", "the dispatcher receives the same host list", ok, hs[0], f"{short(hs[0], 40)} precedes {short(sends[0], 50)}")
+    # each loop iteration: createActor appended to the parked list or the start message appended to an entry of the deferred map
+    gd = cfg_of(de_x)
     loop = loops[0]
-    regs = [gd.node_of(c) for c in ast.walk(loop) if isinstance(c, ast.Call) and last_attr(c.func) == "append"
-            and isinstance(c.func, ast.Attribute) and (is_self_attr(c.func.value, "pending") or (isinstance(c.func.value, ast.Subscript) and is_self_attr(c.func.value.value, "remotes")))]
+    regs = [gd.node_of(c) for c in ast.walk(loop) if is_registration(c)]
     head = gd.node_of(loop)
     starts = gd.edge_targets(head, "iter")
-    ok = bool(regs) and all(head.id not in gd.reachable([s], avoid=regs) or s in regs for s in starts)
-    chk.ob("O12.1c", "every host entry registers a node actor or a pending remote", ok, loop, f"{len(regs)} registration site(s) in the loop")
-    # remotes are all turned into actors on join, and all pending are sent
-    cu = DI.methods.get("receiveMsg_ActorSystemConventionUpdate")
-    sap = DI.methods.get("send_all_pending")
-    if cu is None or sap is None:
-        raise AnchorMissing("Dispatcher.receiveMsg_ActorSystemConventionUpdate / send_all_pending")
-    ok = any(isinstance(n, ast.For) and isinstance(n.iter, ast.Subscript) and is_self_attr(n.iter.value, "remotes")
-             and any(isinstance(c, ast.Call) and last_attr(c.func) == "createActor" for c in ast.walk(n)) for n in walk_body(cu))
-    chk.ob("O12.1c", "every deferred start message of a joined remote gets a node actor", ok, cu, "loop over self.remotes[ip] creating actors")
-    ok = any(isinstance(n, ast.For) and is_self_attr(n.iter, "pending") and any(isinstance(c, ast.Call) and last_attr(c.func) == "send" for c in ast.walk(n))
-             and not any(isinstance(b, (ast.Break, ast.Return, ast.If, ast.Continue)) for b in ast.walk(n)) for n in walk_body(sap))
-    chk.ob("O12.1c", "send_all_pending sends every pending start message", ok, sap, "unconditional loop over self.pending with send")
-    # the wait ends when the map of awaited remotes is EMPTY: a joined remote's entry is deleted whenever it is present, and the map (a defaultdict) is never subscripted in a test
-    # (a mere look-up of an unknown address would create an entry that nothing removes)
-    from sa import pat as _p12
-    dels = [n for n in walk_body(cu) if isinstance(n, ast.Delete) and any(isinstance(t, ast.Subscript) and is_self_attr(t.value, "remotes") for t in n.targets)]
-    ok = bool(dels) and all(all(_p12.is_(f_, "E_k in self.remotes") for f_ in _p12.fact_nodes(d, stop=None) if "remoteAdded" not in u(f_)) for d in dels)
-    chk.ob("O12.1c", "the entry of a joined remote is removed whenever it is present (guarded by membership only)", ok, dels[0] if dels else cu,
-           "" if ok else f"removal guarded by {[u(f_) for d in dels for f_ in _p12.fact_nodes(d)]}", key=f"{_M}:Dispatcher.receiveMsg_ActorSystemConventionUpdate:del-guard")
-    viv = [t for n in walk_body(cu) if isinstance(n, (ast.If, ast.While, ast.IfExp)) for t in ast.walk(n.test) if isinstance(t, ast.Subscript) and is_self_attr(t.value, "remotes")]
-    chk.ob("O12.1c", "no auto-vivifying look-up of the awaited-remotes map inside a condition", not viv, viv[0] if viv else cu,
-           "" if not viv else f"`{u(viv[0])}` in a test creates an empty entry for an address that is not awaited: `not self.remotes` never becomes true and the parked start messages are never sent",
-           key=f"{_M}:Dispatcher.receiveMsg_ActorSystemConventionUpdate:no-vivify")
-    # ... exactly once: a later convention notification (another daemon joining) reaches send_all_pending again, so the list must be empty by then
-    gsap = cfg_of(sap)
-    sloops = [n for n in walk_body(sap) if isinstance(n, ast.For) and is_self_attr(n.iter, "pending")]
-    resets = [n for n in walk_body(sap) if (isinstance(n, ast.Assign) and any(is_self_attr(t, "pending") for t in n.targets) and isinstance(n.value, (ast.List, ast.Tuple)) and not n.value.elts)
-              or (isinstance(n, ast.Expr) and isinstance(n.value, ast.Call) and u(n.value.func) == "self.pending.clear")]
-    ok = bool(sloops) and bool(resets) and gsap.must_pass(gsap.node_of(sloops[0]), [gsap.node_of(r) for r in resets], normal_only=True)
-    chk.ob("O12.1c", "the pending list is emptied once its messages were sent (no host is started twice)", ok, resets[0] if resets else sap,
-           "" if ok else "send_all_pending can return with the sent messages still parked: the next convention notification re-sends every StartNodes",
-           key=f"{_M}:Dispatcher.send_all_pending:reset")
+    if len(loops) != 1:
+        chk.unknown("O12.1c", f"{len(loops)} loops of {de.name} register node actors / deferred start messages (one pass over the host entries was expected)", loops[1])
+    else:
+        ok = all(head.id not in gd.reachable([s], avoid=regs) or s in regs for s in starts)
+        chk.ob("O12.1c", "every host entry registers a node actor or a pending remote", ok, loop, f"{len(regs)} registration site(s) in the loop")
+
+    # the joining of remote daemons and the sending of the parked start messages, evaluated on representative states of the dispatcher
+    if len(deferred) != 1:
+        raise AnchorMissing(f"Dispatcher.receiveMsg_StartEngine: the map in which start messages wait for their remote daemon (found {sorted(deferred)})")
+    deferred_attr = next(iter(deferred))
+    di_init = dict(_init_fields(RA))
+    di_init.update(_init_fields(DI))
+    upstream_di = sorted(a for a, lst in model.address_attrs(DI).items() if any(kind == "sender" for _, kind, _ in lst))
+    di_init.update({a: f"address of the requester (self.{a})" for a in upstream_di})
+    empty_map = {}
+    for n in walk_body(de):
+        if isinstance(n, ast.Assign) and any(is_self_attr(t, deferred_attr) for t in n.targets):
+            try:
+                v = _Sim(model.table, DI, _Obj(name="self")).val(n.value, {})
+                if isinstance(v, dict):
+                    empty_map = v
+            except (_Cannot, _Raised):
+                pass
+    start_msgs = [_Obj(cls="StartNodes", name=f"start message #{i}") for i in range(4)]
+    IP_A, IP_B, IP_X = "10.0.0.2", "10.0.0.3", "10.0.0.99"
+
+    def convention_update(me, ip, added):
+        """the dispatcher `me` is told that the daemon on `ip` has joined (added) / left the convention"""
+        conv = _Obj(cls="ActorSystemConventionUpdate", name="convention update", remoteAdded=added, remoteAdminAddress=f"admin@{ip}", remoteCapabilities={"ip": ip, "coordinator": False})
+        sim = _Sim(model.table, DI, me)
+        raised = None
+        try:
+            sim.call_method(cu, [conv, f"admin@{ip}"])
+        except _Raised as x:
+            raised = x.name
+        return sim.trace, raised
+
+    def dispatcher(awaited, pairs):
+        m_ = type(empty_map)(empty_map) if not isinstance(empty_map, __import__("collections").defaultdict) else __import__("collections").defaultdict(empty_map.default_factory)
+        m_.update({k: list(v) for k, v in awaited.items()})
+        return _Obj(name="self", **{**{k: _snap(v) for k, v in di_init.items()}, parked_attr: list(pairs), deferred_attr: m_})
+
+    def hosts_of(me):
+        """the keys of the awaited-remotes map of the stand-in dispatcher, as sorted text"""
+        return sorted(k if isinstance(k, str) else repr(k) for k in me.fields[deferred_attr])
+
+    def start_sends(trace):
+        return [(e.args[0], e.args[1]) for e in trace if e.name == "send" and len(e.args) >= 2 and any(e.args[1] is m_ for m_ in start_msgs)]
+
+    m0, m1, m2, m3 = start_msgs
+    try:
+        # S1: two hosts awaited, the first one joins
+        me1 = dispatcher({IP_A: [m1, m2], IP_B: [m3]}, [("local node actor", m0)])
+        t1, r1 = convention_update(me1, IP_A, True)
+        created1 = [e.result for e in t1 if e.name == "createActor"]
+        pairs1 = [p_ for p_ in (me1.fields.get(parked_attr) if isinstance(me1.fields.get(parked_attr), list) else []) if isinstance(p_, (tuple, list)) and len(p_) == 2]
+        got_actor = [m_ for m_ in (m1, m2) if any(p_[1] is m_ and any(p_[0] is c_ for c_ in created1) for p_ in pairs1)]
+        # S2: the last awaited host joins
+        me2 = dispatcher({IP_A: [m1]}, [("local node actor", m0)])
+        t2, r2 = convention_update(me2, IP_A, True)
+        created2 = [e.result for e in t2 if e.name == "createActor"]
+        sent2 = start_sends(t2)
+        hosts2 = hosts_of(me2) if isinstance(me2.fields.get(deferred_attr), dict) else None
+        parked2 = list(me2.fields[parked_attr]) if isinstance(me2.fields.get(parked_attr), list) else None
+        # S3: a daemon that is not awaited joins while a host is still awaited
+        me3 = dispatcher({IP_A: [m1]}, [("local node actor", m0)])
+        t3, r3 = convention_update(me3, IP_X, True)
+        # S4: after S2 another daemon joins
+        t4, r4 = convention_update(me2, IP_X, True) if r2 is None else ([], None)
+        # D1 / D2: a daemon leaves before it has joined / after all have joined (its host may still be starting nodes)
+        me5 = dispatcher({IP_A: [m1]}, [("local node actor", m0)])
+        t5, r5 = convention_update(me5, IP_A, False)
+        me6 = dispatcher({}, [])
+        t6, r6 = convention_update(me6, IP_A, False)
+        me7 = dispatcher({IP_A: [m1], IP_B: [m3]}, [])
+        t7, r7 = convention_update(me7, IP_B, False)
+        sim_err_di = None
+        for me_ in (me1, me2, me3):
+            if not isinstance(me_.fields.get(deferred_attr), dict) or not isinstance(me_.fields.get(parked_attr), list):
+                sim_err_di = f"self.{deferred_attr} / self.{parked_attr} is no longer a map / a list after the notification"
+    except _Cannot as e:
+        sim_err_di = str(e)
+    if sim_err_di is not None:
+        chk.unknown("O12.1c", f"{cu.name} cannot be evaluated on representative states of the dispatcher: {sim_err_di}", cu)
+    else:
+        ok = r1 is None and len(got_actor) == 2 and len(created1) == 2
+        chk.ob("O12.1c", "every deferred start message of a joined remote gets a node actor", ok, cu,
+               f"2 start messages wait for {IP_A}: {len(created1)} node actor(s) created, {len(got_actor)} parked with their message" + (f", {r1} raised" if r1 else ""))
+        ok = r2 is None and sorted(id(p_[1]) for p_ in sent2) == sorted(id(m_) for m_ in (m0, m1)) \
+            and all(_eq(tgt, "local node actor") if msg_ is m0 else any(tgt is c_ for c_ in created2) for tgt, msg_ in sent2)
+        chk.ob("O12.1c", "send_all_pending sends every pending start message", ok, cu,
+               f"the last awaited daemon joins: {len(sent2)} of 2 parked start messages sent, each to its node actor" if ok else
+               f"the last awaited daemon joins: sent {[(repr(t_), repr(m_)) for t_, m_ in sent2]}, expected the 2 parked messages, each once, to its own node actor" + (f"; {r2} raised" if r2 else ""))
+        left_b = me1.fields[deferred_attr].get(IP_B)
+        ok = r1 is None and r2 is None and hosts_of(me1) == [IP_B] and isinstance(left_b, list) and len(left_b) == 1 and left_b[0] is m3 and hosts2 == [] and not start_sends(t1)
+        chk.ob("O12.1c", "the entry of a joined remote is removed whenever it is present (guarded by membership only)", ok, cu,
+               f"after {IP_A} joined the awaited hosts are {hosts_of(me1)} (was {[IP_A, IP_B]}), start messages sent meanwhile: {len(start_sends(t1))}",
+               key=f"{_M}:Dispatcher.receiveMsg_ActorSystemConventionUpdate:del-guard")
+        if r3 is not None:
+            chk.unknown("O12.1c", f"{cu.name} raises {r3} when a daemon joins that no start message waits for", cu)
+        else:
+            ok = hosts_of(me3) == [IP_A] and not start_sends(t3) and not [e for e in t3 if e.name == "createActor"]
+            chk.ob("O12.1c", "no auto-vivifying look-up of the awaited-remotes map inside a condition", ok, cu,
+                   "" if ok else f"a daemon that is not awaited ({IP_X}) joins while {IP_A} is awaited: the awaited hosts become {hosts_of(me3)}, {len(start_sends(t3))} start message(s) "
+                   f"sent: `not self.{deferred_attr}` never becomes true / becomes true too early", key=f"{_M}:Dispatcher.receiveMsg_ActorSystemConventionUpdate:no-vivify")
+        if r4 is not None:
+            chk.unknown("O12.1c", f"{cu.name} raises {r4} when a daemon joins after the start messages were sent", cu)
+        else:
+            ok = r2 is None and parked2 == [] and not start_sends(t4)
+            chk.ob("O12.1c", "the pending list is emptied once its messages were sent (no host is started twice)", ok, cu,
+                   "" if ok else f"after the start messages went out self.{parked_attr} still holds {len(parked2 or [])} pair(s); the next convention notification re-sends "
+                   f"{len(start_sends(t4))} StartNodes", key=f"{_M}:Dispatcher.send_all_pending:reset")
 
     # node actors are placed by capability ({"ip": <host>}): an actor system qualifies only if it DECLARES the required capability with the required value — a system that does
     # not declare it at all (the coordinator's own system: {"coordinator": True}) must not qualify, or the remote host's nodes are started on the coordinator
@@ -414,61 +1709,89 @@ def run(chk):
     # ---- O12.2 external bypass ---------------------------------------------------------------------------
     chk.rule("O12.2", "on the externally-provisioned edge of start and of stop no actor is created and no StartEngine/StartNodes/StopNodes is sent; create() raises for external", 3,
              "benchmark-only pipeline: Rally would try to provision/stop a cluster it does not own")
-    for hname in ("receiveMsg_StartEngine", "receiveMsg_StopEngine"):
-        h = MA.methods.get(hname)
-        if h is None:
-            raise AnchorMissing(f"MechanicActor.{hname}")
-        ifs = [n for n in walk_body(h) if isinstance(n, ast.If) and "extern" in u(n.test)]
-        if not ifs:
-            chk.ob("O12.2", f"{hname}: external branch", False, h, "no branch on the externally-provisioned flag")
+    _ACTS = ("createActor", "send_to_children_and_transition", "StartNodes", "StopNodes", "StartEngine", "Dispatcher")
+
+    def acts_in(fn_x, live=None, seen=None):
+        """calls in the (expanded) handler that create an actor or build a start / stop message, restricted to the CFG nodes in `live`; self-calls that were not expanded are followed"""
+        g_ = cfg_of(fn_x)
+        seen = set() if seen is None else seen
+        out = []
+        for n in walk_body(fn_x):
+            if not isinstance(n, ast.Call) or (live is not None and not any(x.id in live for x in g_.nodes_of(n))):
+                continue
+            if last_attr(n.func) in _ACTS:
+                out.append(n)
+            elif _self_call(n, params_of(fn_x)[0]):
+                callee = model.table.method(MA, n.func.attr)
+                if callee is not None and id(callee) not in seen and callee.name != fn_x.name:
+                    seen.add(id(callee))
+                    out += acts_in(callee, None, seen)
+        return out
+
+    for hname, hx in ((se.name, se_x), (sth.name, sth_x)):
+        everywhere = acts_in(hx)
+        if not everywhere:
+            chk.unknown("O12.2", f"{hname}: no path creates an actor or sends a start / stop message (the provisioned path was not recognised)", hx)
             continue
-        for i in ifs:
-            pos = not (isinstance(i.test, ast.UnaryOp) and isinstance(i.test.op, ast.Not))
-            arm = i.body if pos else i.orelse
-            bad = []
-            stack = list(arm)
-            seen = set()
-            while stack:
-                st = stack.pop()
-                for n in source.walk_local(st):
-                    if isinstance(n, ast.Call):
-                        nm = last_attr(n.func)
-                        if nm in ("createActor", "send_to_children_and_transition") or nm in ("StartNodes", "StopNodes", "StartEngine", "Dispatcher"):
-                            bad.append(nm)
-                        if isinstance(n.func, ast.Attribute) and isinstance(n.func.value, ast.Name) and n.func.value.id == "self":
-                            callee = model.table.method(MA, n.func.attr)
-                            if callee is not None and id(callee) not in seen and callee is not h:
-                                seen.add(id(callee))
-                                stack.extend(callee.body)
-            chk.ob("O12.2", f"{hname}: external arm creates/starts/stops nothing", not bad and bool(arm), i, f"reaches {bad}" if bad else "no createActor / StartNodes / StopNodes reachable")
+        bad = acts_in(hx, feasible(hx, True))
+        chk.ob("O12.2", f"{hname}: external arm creates/starts/stops nothing", not bad, bad[0] if bad else hx,
+               f"an externally provisioned cluster reaches {sorted({last_attr(c.func) for c in bad})}" if bad else
+               f"no createActor / StartNodes / StopNodes reachable for an externally provisioned cluster ({len(everywhere)} such call(s) for a provisioned one)")
     # the flag consulted at stop time is the one of the CURRENT StartEngine: assigned from the message on every path that reaches the branch (an actor may be reused)
-    seh = MA.methods.get("receiveMsg_StartEngine")
-    sth = MA.methods.get("receiveMsg_StopEngine")
-    flag_reads = [n for n in walk_body(sth) if is_self_attr(n) and "extern" in n.attr and isinstance(n.ctx, ast.Load)] if sth is not None else []
-    if seh is not None and flag_reads:
-        fl = flag_reads[0].attr
-        mp = params_of(seh)[1]
-        writes = [n for f_ in MA.methods.values() for n in walk_body(f_) if isinstance(n, (ast.Assign, ast.AugAssign)) and any(is_self_attr(t, fl) for t in (n.targets if isinstance(n, ast.Assign) else [n.target]))]
-        in_start = [n for n in writes if source.enclosing_func(n) is seh]
-        gse = cfg_of(seh)
-        branch = [n for n in walk_body(seh) if isinstance(n, ast.If) and "extern" in u(n.test)]
-        from_msg = [n for n in in_start if isinstance(n, ast.Assign) and isinstance(n.value, ast.Attribute) and isinstance(n.value.value, ast.Name) and n.value.value.id == mp]
-        ok = len(in_start) == 1 and len(from_msg) == 1 and bool(branch) and gse.dominated_by_nodes(gse.node_of(branch[0]), [gse.node_of(from_msg[0])]) \
-            and all(source.enclosing_func(n) is seh or source.enclosing_func(n).name == "__init__" for n in writes)
-        chk.ob("O12.2", f"`self.{fl}` is assigned from the StartEngine message before the branch, on every path (never sticky)", ok, in_start[0] if in_start else seh,
-               f"writes in the handler: {[short(n, 50) for n in in_start]}" + ("" if ok else " — a provisioned start after an external one keeps the external flag: StopEngine acknowledges without stopping any node"),
-               key=f"{_M}:MechanicActor.receiveMsg_StartEngine:flag-from-message")
+    if not flag_read_in_stop:
+        chk.unknown("O12.2", f"{sth.name} does not read an attribute that {se.name} derives from `{mp_se}.{EXT_FIELD}` (flag candidates: {sorted(flag_writes)})", sth)
     else:
-        chk.ob("O12.2", "StopEngine consults the externally-provisioned flag", False, sth if sth is not None else MA.node, "no read of the flag in receiveMsg_StopEngine")
+        def writes_of(fn):
+            return [n for n in walk_body(fn) if isinstance(n, (ast.Assign, ast.AugAssign, ast.Delete)) and any(is_self_attr(t, flag) for t in
+                    (n.targets if isinstance(n, (ast.Assign, ast.Delete)) else [n.target]))]
+
+        in_start = writes_of(se_x)
+        elsewhere = [n for m_ in MA.methods.values() if m_.name not in (se.name, "__init__") and m_.name not in _inlined_names(se_x) for n in writes_of(m_)]
+        from_msg = [n for n in in_start if isinstance(n, ast.Assign) and mentions_ext(source.inline_node(n.value, se_defs_x))]
+        gse = cfg_of(se_x)
+        readers = [n for n in walk_body(se_x) if isinstance(n, (ast.If, ast.While)) and any(is_self_attr(x, flag) for x in ast.walk(n.test))]
+        fm_nodes = [gse.node_of(n) for n in from_msg]
+        ok = bool(from_msg) and len(from_msg) == len(in_start) and not elsewhere and all(gse.dominated_by_nodes(gse.node_of(r), fm_nodes) for r in readers) \
+            and gse.must_pass(gse.entry, fm_nodes)
+        chk.ob("O12.2", f"`self.{flag}` is assigned from the StartEngine message before the branch, on every path (never sticky)", ok, in_start[0] if in_start else se,
+               f"writes in the handler: {[short(n, 50) for n in in_start]}" + (f", elsewhere: {[short(n, 40) for n in elsewhere]}" if elsewhere else "")
+               + ("" if ok else " — a provisioned start after an external one keeps the external flag: StopEngine acknowledges without stopping any node"),
+               key=f"{_M}:MechanicActor.receiveMsg_StartEngine:flag-from-message")
     cr = mech.func("create")
     gcr = cfg_of(cr)
-    ext_ifs = [n for n in walk_body(cr) if isinstance(n, ast.If) and isinstance(n.test, ast.Name) and n.test.id == "external"]
-    ok = False
-    for i in ext_ifs:
-        tn = gcr.node_of(i)
-        starts = gcr.edge_targets(tn, "true")
-        ok = bool(starts) and all(gcr.exit.id not in gcr.reachable([s]) for s in starts)
-    chk.ob("O12.2", "create(): external raises", ok, ext_ifs[0] if ext_ifs else cr, "the external arm raises on every path" if ok else "create() can build a Mechanic for an external cluster")
+    # which parameter of create() says "externally provisioned": the one the node mechanic hands the `external` field of its start message to
+    ext_param = None
+    for m_ in NM.methods.values():
+        for c in source.calls_in(m_):
+            if isinstance(c.func, ast.Name) and c.func.id == cr.name:
+                for p_, a_ in source.bind_args(c, cr, skip_self=False).items():
+                    if isinstance(a_, ast.Attribute) and a_.attr == EXT_FIELD:
+                        ext_param = p_
+    ext_param = ext_param or (EXT_FIELD if EXT_FIELD in params_of(cr) else None)
+    if ext_param is None:
+        raise AnchorMissing(f"create(): the parameter that receives the `{EXT_FIELD}` field of the start message")
+    flags_cr = {p_: False for p_, d_ in zip(params_of(cr)[len(params_of(cr)) - len(cr.args.defaults):], cr.args.defaults) if isinstance(d_, ast.Constant) and d_.value is False}
+    flags_cr[ext_param] = True
+    dead, decided = [], []
+    cr_defs = source.local_defs(cr)
+    for n in walk_body(cr):
+        if isinstance(n, (ast.If, ast.While)):
+            names = {x.id for x in ast.walk(n.test) if isinstance(x, ast.Name)}
+            if not names or not names <= set(flags_cr):
+                continue
+            try:
+                v = bool(_Sim(model.table, MA, _Obj(name="self")).val(n.test, dict(flags_cr)))
+            except (_Cannot, _Raised):
+                continue
+            decided.append(n)
+            for tn in gcr.nodes_of(n):
+                dead += [(tn.id, y, l_) for (y, l_) in gcr.succ[tn.id] if l_ in ("true", "false") and l_ != ("true" if v else "false")]
+    if not any(ext_param in {x.id for x in ast.walk(n.test) if isinstance(x, ast.Name)} for n in decided):
+        chk.unknown("O12.2", f"create(): no test over the parameter `{ext_param}` alone (and the other mode switches) was found", cr)
+    else:
+        ok = gcr.exit.id not in gcr.reachable([gcr.entry], avoid_edges=dead)
+        site = next(n for n in decided if ext_param in {x.id for x in ast.walk(n.test) if isinstance(x, ast.Name)})
+        chk.ob("O12.2", "create(): external raises", ok, site, f"{ext_param}=True (other mode switches off): every path raises" if ok else "create() can build a Mechanic for an external cluster")
 
     # ---- O12.3 failure reporting ---------------------------------------------------------------------------
     chk.rule("O12.3", "StartNodes handling reports any Exception as BenchmarkFailure to reply_to/sender; NodesStarted is sent only after start_engine() returned", 2,
@@ -476,54 +1799,141 @@ def run(chk):
     sn = NM.methods.get("receiveMsg_StartNodes")
     if sn is None:
         raise AnchorMissing("NodeMechanicActor.receiveMsg_StartNodes")
-    chk.ob("O12.3", "receiveMsg_StartNodes guarded", handler_guard(sn) is not None, sn, f"guard={handler_guard(sn)}")
-    gsn = cfg_of(sn)
-    ns = [c for c in source.calls_in(sn, attr="send") if len(c.args) >= 2 and isinstance(c.args[1], ast.Call) and last_attr(c.args[1].func) == "NodesStarted"]
-    se_calls = [c for c in source.calls_in(sn, attr="start_engine")]
-    ok = bool(ns) and bool(se_calls) and all(gsn.dominated_by_nodes(gsn.node_of(s), [gsn.node_of(c) for c in se_calls]) for s in ns)
-    chk.ob("O12.3", "NodesStarted after start_engine()", ok, ns[0] if ns else sn, f"NodesStarted sends={len(ns)} start_engine calls={len(se_calls)}")
-    for s in ns:
-        chk.ob("O12.3", "NodesStarted goes to reply_to/sender", send_target_ok(s, set(), sn), s, short(s, 70))
+    nm_init = dict(_init_fields(RA))
+    nm_init.update(_init_fields(NM))
+    REQUESTER, RELAY = "address of the requester (reply_to of the start message)", "address of the dispatcher (sender of the start message)"
+
+    def handle(ci, handler, fields, msg, sender, fail_at=None):
+        """the handler processes msg on a stand-in actor; fail_at: index of the recorded call that raises. Returns (trace, actor, name of the exception that escaped or None)"""
+        me = _Obj(name="self", **{k: _snap(v) for k, v in fields.items()})
+        sim = _Sim(model.table, ci, me, fail=(lambda ev: len(sim.trace) - 1 == fail_at) if fail_at is not None else None)
+        escaped = None
+        try:
+            sim.call_method(handler, [msg, sender])
+        except _Raised as x:
+            escaped = x.name
+        return sim.trace, me, escaped
+
+    def start_nodes_msg(with_reply_to):
+        fields = dict(ip="10.0.0.2", port=39200, external=False, docker=False, node_ids=[0, 1], all_node_ips=["10.0.0.2", "10.0.0.3"], all_node_ids=[0, 1, 2])
+        if with_reply_to:
+            fields["reply_to"] = REQUESTER
+        return _Obj(cls="StartNodes", name="msg", **fields)
+
+    def sends_of(trace, clsname):
+        return [(i, e) for i, e in enumerate(trace) if e.name == "send" and len(e.args) >= 2 and _payload_is(e.args[1], clsname)]
+
+    relay_forwards_acks = any(a is DI for a, _ in model.handler_names.get("NodesStarted", []))
+    engine, actor_ok = [], None
+    try:
+        runs = {}
+        for with_reply_to in (True, False):
+            try:
+                t_, me_, esc_ = handle(NM, sn, nm_init, start_nodes_msg(with_reply_to), RELAY)
+            except _Cannot:
+                if with_reply_to:
+                    raise
+                continue  # the dispatcher always stamps reply_to: a handler that cannot be evaluated without it is judged on the stamped message alone
+            runs[with_reply_to] = (t_, esc_)
+            actor_ok = me_ if with_reply_to else actor_ok
+        t_ok, esc_ok = runs[True]
+        acks = sends_of(t_ok, "NodesStarted")
+        first_ack = acks[0][0] if acks else len(t_ok)
+        # every call the handler makes before the acknowledgement (other than logging) is made to fail in turn
+        points = [i for i, e in enumerate(t_ok[:first_ack]) if not _logging_event(e) and not _payload_is(e.result, "NodesStarted") and e.callee not in _NEVER_FAILS]
+        failing = []
+        for i in points:
+            t_, _, esc_ = handle(NM, sn, nm_init, start_nodes_msg(True), RELAY, fail_at=i)
+            failing.append((t_ok[i], t_, esc_))
+        sim_err = None
+    except _Cannot as e:
+        sim_err = str(e)
+    if sim_err is not None:
+        chk.unknown("O12.3", f"{sn.name} cannot be evaluated on a representative start message: {sim_err}", sn)
+    elif not acks or esc_ok is not None:
+        chk.unknown("O12.3", f"{sn.name}: no NodesStarted is sent for a start message on which nothing fails" + (f" ({esc_ok} raised)" if esc_ok else ""), sn)
+    else:
+        decorated = handler_guard(sn) == "no_retry"  # the decorator reports whatever escapes the handler to the sender (O9.1)
+        unreported = [(ev, esc_) for ev, t_, esc_ in failing
+                      if not any(_eq(e.args[0], REQUESTER) or _eq(e.args[0], RELAY) for _, e in sends_of(t_, "BenchmarkFailure")) and not (decorated and esc_ is not None)]
+        chk.ob("O12.3", "receiveMsg_StartNodes guarded", not unreported, unreported[0][0].node if unreported else sn,
+               f"{len(failing)} call(s) made to fail in turn: each failure is reported as BenchmarkFailure to the requester / the sender" if not unreported else
+               f"a failure of `{short(unreported[0][0].node, 60)}` is not reported as BenchmarkFailure to the requester / the sender"
+               + (f" ({unreported[0][1]} escapes the handler)" if unreported[0][1] else " (it is swallowed)"))
+        engine = [i for i, e in enumerate(t_ok) if e.name == "start_engine"]
+        early = [ev for ev, t_, _ in failing if ev.name == "start_engine" and sends_of(t_, "NodesStarted")]
+        ok = bool(engine) and engine[0] < first_ack and not early and all(not sends_of(t_, "NodesStarted") for _, t_, _ in failing)
+        if not engine:
+            chk.unknown("O12.3", f"{sn.name}: no call start_engine() on the path that sends NodesStarted", sn)
+        else:
+            chk.ob("O12.3", "NodesStarted after start_engine()", ok, acks[0][1].node,
+                   f"start_engine() is call #{engine[0] + 1}, NodesStarted is sent by call #{first_ack + 1}; no acknowledgement when an earlier call fails" if ok else
+                   ("NodesStarted is sent before start_engine() was called" if engine[0] > first_ack else "NodesStarted is sent although a call before it failed (start_engine() included)"))
+        for with_reply_to, (t_, esc_) in runs.items():
+            want = REQUESTER if with_reply_to else RELAY
+            a_ = sends_of(t_, "NodesStarted")
+            tgts = [e.args[0] for _, e in a_]
+            ok = len(a_) == 1 and (_eq(tgts[0], want) or (relay_forwards_acks and _eq(tgts[0], RELAY)))
+            if with_reply_to or not ok:
+                chk.ob("O12.3", "NodesStarted goes to reply_to/sender", ok, a_[0][1].node if a_ else sn,
+                       f"start message {'with' if with_reply_to else 'without'} reply_to: NodesStarted goes to {tgts} (expected: the {want})")
     # NodesStarted constructed nowhere else
-    others = [n for m in repo.all_modules() for n in ast.walk(m.tree) if isinstance(n, ast.Call) and last_attr(n.func) == "NodesStarted"
-              and isinstance(source.parent(n), ast.Call) and source.enclosing_func(n) is not sn]
+    sn_closure = [fn for _, fn in model.method_closure(NM, sn)]
+    others = [n for n in source.package_calls(repo, "NodesStarted") if not any(source.enclosing_func(n) is fn for fn in sn_closure)]
     chk.ob("O12.3", "NodesStarted constructed only in receiveMsg_StartNodes", not others, others[0] if others else sn, f"{len(others)} other site(s)")
 
     # ---- O12.4 daemon departure ----------------------------------------------------------------------------------
     chk.rule("O12.4", "when a remote Rally daemon leaves during start-up (not remoteAdded) a BenchmarkFailure is sent to the start sender on every path", 1,
              "remote daemon dies while the dispatcher waits for it: race control hangs")
-    gcu = cfg_of(cu)
-    addr = model.address_attrs(DI)
-    tests = [n for n in walk_body(cu) if isinstance(n, ast.If) and "remoteAdded" in u(n.test)]
-    if not tests:
-        raise AnchorMissing("Dispatcher.receiveMsg_ActorSystemConventionUpdate: test on remoteAdded")
-    t = tests[0]
-    neg = isinstance(t.test, ast.UnaryOp) and isinstance(t.test.op, ast.Not)
-    label = "true" if neg else "false"
-    starts = gcu.edge_targets(gcu.node_of(t), label)
-    sends = [gcu.node_of(c) for c in source.calls_in(cu, attr="send") if is_failure_send(c) and send_target_ok(c, set(addr), cu)]
-    ok = bool(sends) and bool(starts) and all(s in sends or gcu.must_pass(s, sends) for s in starts)
-    chk.ob("O12.4", "Dispatcher: departure -> send(start_sender, BenchmarkFailure)", ok, t,
-           "failure sent on every path of the departure branch" if ok else "the departure branch can end without sending a BenchmarkFailure to an address",
-           key=f"{_M}:Dispatcher.receiveMsg_ActorSystemConventionUpdate:departure")
+    if sim_err_di is not None:
+        chk.unknown("O12.4", f"{cu.name} cannot be evaluated on representative states of the dispatcher: {sim_err_di}", cu)
+    elif not upstream_di:
+        raise AnchorMissing("Dispatcher: no attribute holds the address of the actor that asked for the engine to be started (assigned from a handler's sender)")
+    else:
+        want = {di_init[a] for a in upstream_di}
+        rep5 = [e for _, e in sends_of(t5, "BenchmarkFailure") if any(_eq(e.args[0], w_) for w_ in want)]
+        rep6 = [e for _, e in sends_of(t6, "BenchmarkFailure") if any(_eq(e.args[0], w_) for w_ in want)]
+        rep7 = [e for _, e in sends_of(t7, "BenchmarkFailure") if any(_eq(e.args[0], w_) for w_ in want)]
+        ok = bool(rep5) and bool(rep6) and bool(rep7)
+        chk.ob("O12.4", "Dispatcher: departure -> send(start_sender, BenchmarkFailure)", ok, (rep5 or rep6)[0].node if (rep5 or rep6) else cu,
+               "a daemon that leaves before it has joined / after all daemons have joined is reported to the requester" if ok else
+               ("a daemon that leaves " + ("while its host is awaited" if not (rep5 and rep7) else "after all daemons have joined (its host may still be starting nodes)")
+                + f" is not reported: no send(<{', '.join('self.' + a for a in upstream_di)}>, BenchmarkFailure)" + (f"; {r5 or r6 or r7} raised" if (r5 or r6 or r7) else "")),
+               key=f"{_M}:Dispatcher.receiveMsg_ActorSystemConventionUpdate:departure")
 
     # ---- O12.5 stop order and once-only -----------------------------------------------------------------------------------
     chk.rule("O12.5", "stop_engine: launcher stop < flush(refresh) < store system metrics < store close < cleanup(preserve=configured flag) for every node config; "
              "NodesStopped only after stop_engine(); mechanic reference cleared; exit-request stop guarded by the reference", 8,
              "nodes left running / metrics lost / installation removed although preserve-install is set / node stopped twice")
     M = mech.cls("Mechanic")
-    st = mech.methods(M).get("stop_engine")
-    if st is None:
-        raise AnchorMissing("Mechanic.stop_engine")
+    MI = model.table.get("Mechanic", _M)
+    st_orig = mech.methods(M).get("stop_engine")
+    se_m = mech.methods(M).get("start_engine")
+    if st_orig is None or se_m is None:
+        raise AnchorMissing("Mechanic.stop_engine / start_engine")
+    st = _Inliner(model.table, MI).expand(st_orig)  # helpers of the Mechanic (flush_metrics, _add_results, an extracted clean-up routine ...) are analysed as part of stop_engine
     gst = cfg_of(st)
+    st_defs = source.local_defs(st)
+    # roles of the Mechanic's attributes, from start_engine: self.<NODES> = self.<LAUNCHER>.start(self.<CONFIGS>)
+    se_mx = _Inliner(model.table, MI).expand(se_m)
+    launches = [n for n in walk_body(se_mx) if isinstance(n, ast.Assign) and any(is_self_attr(t) for t in n.targets) and isinstance(n.value, ast.Call)
+                and isinstance(n.value.func, ast.Attribute) and is_self_attr(n.value.func.value)]
+    if len(launches) != 1:
+        raise AnchorMissing(f"Mechanic.start_engine: self.<nodes> = self.<launcher>.<start>(...) (found {[short(n, 50) for n in launches]})")
+    nodes_attr = next(t.attr for t in launches[0].targets if is_self_attr(t))
+    launcher_attr = launches[0].value.func.value.attr
+    cfg_args = [a for a in launches[0].value.args if is_self_attr(a)]
+    configs_attr = cfg_args[0].attr if cfg_args else "node_configs"
 
     def find(pred):
         return [n for n in walk_body(st) if isinstance(n, ast.Call) and pred(n)]
 
-    stop_c = find(lambda n: last_attr(n.func) == "stop" and "launcher" in u(n.func))
-    flush_c = find(lambda n: last_attr(n.func) in ("flush_metrics", "flush"))
+    stop_c = find(lambda n: isinstance(n.func, ast.Attribute) and is_self_attr(n.func.value, launcher_attr) and n.func.attr != launches[0].value.func.attr)
+    close_c = find(lambda n: last_attr(n.func) == "close" and isinstance(n.func, ast.Attribute) and is_self_attr(n.func.value))
+    store_attrs = {c.func.value.attr for c in close_c}
+    flush_c = find(lambda n: last_attr(n.func) in ("flush_metrics", "flush") and isinstance(n.func, ast.Attribute)
+                   and (is_self_attr(n.func.value) and n.func.value.attr in store_attrs or _self_call(n)))
     add_c = find(lambda n: last_attr(n.func) == "_add_results" or last_attr(n.func) == "store_results")
-    close_c = find(lambda n: last_attr(n.func) == "close" and "metrics_store" in u(n.func))
     clean_c = find(lambda n: last_attr(n.func) == "cleanup")
     seq = [("launcher.stop", stop_c), ("flush", flush_c), ("store system metrics", add_c), ("metrics_store.close", close_c), ("cleanup", clean_c)]
     for name, cs in seq:
@@ -536,63 +1946,131 @@ def run(chk):
     for name, cs in seq:
         if name == "store system metrics":
             continue  # inside try with NotFound handler by design
-        ok = gst.must_pass(gst.entry, [gst.node_of(c) for c in cs]) or name == "cleanup"
-        if name == "cleanup":
-            loop = source.enclosing(cs[0], ast.For)
-            ok = loop is not None and "node_configs" in u(loop.iter) and gst.must_pass(gst.entry, [gst.node_of(loop)]) and not guards(cs[0], stop=loop)
-        chk.ob("O12.5", f"{name} on every normal path", ok, cs[0], "")
+        if name != "cleanup":
+            chk.ob("O12.5", f"{name} on every normal path", gst.must_pass(gst.entry, [gst.node_of(c) for c in cs]), cs[0], "")
+            continue
+        loop = source.enclosing(cs[0], (ast.For, ast.ListComp, ast.GeneratorExp, ast.SetComp))
+        if isinstance(loop, ast.For):
+            over, conditional = source.inline_node(loop.iter, st_defs), bool(guards(cs[0], stop=loop))
+        elif loop is not None:
+            over, conditional = source.inline_node(loop.generators[0].iter, st_defs), len(loop.generators) != 1 or bool(loop.generators[0].ifs) or bool(guards(cs[0], stop=loop))
+        if loop is None or not any(is_self_attr(x) for x in ast.walk(over)):
+            chk.unknown("O12.5", "cleanup is not called in a loop / comprehension over an attribute of the mechanic (one call per node configuration was not recognised)", cs[0])
+            continue
+        ok = any(is_self_attr(x, configs_attr) for x in ast.walk(over)) and gst.must_pass(gst.entry, [gst.node_of(loop)]) and not conditional
+        chk.ob("O12.5", f"{name} on every normal path", ok, cs[0], f"once per element of `{u(over)}`" + (" (conditionally)" if conditional else ""))
     rf = source.arg_of(flush_c[0], 0, "refresh")
+    rf = source.inline_node(rf, st_defs) if rf is not None else None
     chk.ob("O12.5", "flush with refresh", rf is not None and source.is_const(rf, True), flush_c[0], short(flush_c[0], 50))
     pv = source.arg_of(clean_c[0], 0, "preserve")
     init = mech.methods(M).get("__init__")
-    pres_ok = False
-    if pv is not None and is_self_attr(pv) and init is not None:
-        for n in walk_body(init):
-            if isinstance(n, ast.Assign) and any(is_self_attr(t, pv.attr) for t in n.targets) and isinstance(n.value, ast.Call) \
-                    and any(source.is_const(a, "preserve.install") for a in n.value.args):
-                pres_ok = True
-    chk.ob("O12.5", "cleanup(preserve=<configured preserve.install>)", pres_ok, clean_c[0], f"preserve={u(pv) if pv is not None else None}")
+    pv_x = source.inline_node(pv, st_defs) if pv is not None else None
+    if pv_x is not None and is_self_attr(pv_x) and init is not None:
+        srcs = [n.value for n in walk_body(init) if isinstance(n, ast.Assign) and any(is_self_attr(t, pv_x.attr) for t in n.targets)]
+        pv_x = source.inline_node(srcs[0], source.local_defs(init)) if len(srcs) == 1 else pv_x
+    if pv_x is None or is_self_attr(pv_x) or isinstance(pv_x, ast.Name):
+        chk.unknown("O12.5", f"the value of cleanup's preserve argument could not be traced to a configuration look-up or a constant: {u(pv_x) if pv_x is not None else 'not passed'}", clean_c[0])
+    else:
+        pres_ok = any(isinstance(c, ast.Call) and any(source.is_const(a, "preserve.install") for a in c.args) for c in ast.walk(pv_x))
+        chk.ob("O12.5", "cleanup(preserve=<configured preserve.install>)", pres_ok, clean_c[0], f"preserve={u(pv) if pv is not None else None} = {short(pv_x, 70)}")
     # lists emptied
-    for attr in ("nodes", "node_configs"):
-        resets = [n for n in walk_body(st) if isinstance(n, ast.Assign) and any(is_self_attr(t, attr) for t in n.targets) and isinstance(n.value, ast.List) and not n.value.elts]
-        chk.ob("O12.5", f"self.{attr} emptied after stop", bool(resets) and gst.must_pass(gst.entry, [gst.node_of(r) for r in resets]), resets[0] if resets else st, "")
-    # node actor
-    ur = NM.methods.get("receiveUnrecognizedMessage")
-    if ur is None:
-        raise AnchorMissing("NodeMechanicActor.receiveUnrecognizedMessage")
-    gur = cfg_of(ur)
-    nst = [c for c in source.calls_in(ur, attr="send") if len(c.args) >= 2 and isinstance(c.args[1], ast.Call) and last_attr(c.args[1].func) == "NodesStopped"]
-    stops = source.calls_in(ur, attr="stop_engine")
-    if not nst or not stops:
-        raise AnchorMissing("NodeMechanicActor.receiveUnrecognizedMessage: NodesStopped send / stop_engine call")
-    clears_all = [n for n in walk_body(ur) if isinstance(n, ast.Assign) and any(is_self_attr(t, "mechanic") for t in n.targets) and source.is_const(n.value) and n.value.value is None]
-    for s in nst:
-        arm = [t for t, pol in guards(s) if pol and isinstance(t, ast.Call) and dotted(t.func) == "isinstance" and last_attr(t.args[1]) == "StopNodes"]
-        chk.ob("O12.5", "NodesStopped only when handling StopNodes", bool(arm), s, "")
-        arm_stops = [c for c in stops if any(t is a and pol for a in arm for t, pol in guards(c))]
-        ok = bool(arm_stops) and gur.dominated_by_nodes(gur.node_of(s), [gur.node_of(c) for c in arm_stops])
-        chk.ob("O12.5", "NodesStopped after stop_engine()", ok, s, "")
-        ok = len(arm_stops) == 1 and gur.only_after_normal_return(s, arm_stops[0])
-        chk.ob("O12.5", "NodesStopped only when stop_engine() returned (not on its failure edge)", ok, s,
+    def empties(n, attr):
+        """self.<attr> = [] / list() / self.<attr>.clear() / del self.<attr>[:] / self.<attr>[:] = []"""
+        if isinstance(n, ast.Assign) and any(is_self_attr(t, attr) for t in n.targets):
+            return (isinstance(n.value, (ast.List, ast.Tuple)) and not n.value.elts) or u(n.value) == "list()"
+        if isinstance(n, ast.Assign) and len(n.targets) == 1 and isinstance(n.targets[0], ast.Tuple) and isinstance(n.value, ast.Tuple) and len(n.value.elts) == len(n.targets[0].elts):
+            return any(is_self_attr(t, attr) and ((isinstance(v, (ast.List, ast.Tuple)) and not v.elts) or u(v) == "list()") for t, v in zip(n.targets[0].elts, n.value.elts))
+        if isinstance(n, ast.Expr) and isinstance(n.value, ast.Call) and isinstance(n.value.func, ast.Attribute) and n.value.func.attr == "clear" and is_self_attr(n.value.func.value, attr):
+            return True
+        tg = n.targets if isinstance(n, (ast.Delete, ast.Assign)) else []
+        return any(isinstance(t, ast.Subscript) and is_self_attr(t.value, attr) and isinstance(t.slice, ast.Slice) and t.slice.lower is None and t.slice.upper is None for t in tg) \
+            and (isinstance(n, ast.Delete) or (isinstance(n.value, (ast.List, ast.Tuple)) and not n.value.elts))
+
+    for attr in (nodes_attr, configs_attr):
+        resets = [n for n in walk_body(st) if empties(n, attr)]
+        shrinks = [n for n in walk_body(st) if isinstance(n, ast.Call) and isinstance(n.func, ast.Attribute) and n.func.attr in ("pop", "remove", "popleft") and is_self_attr(n.func.value, attr)]
+        if not resets and shrinks:
+            chk.unknown("O12.5", f"self.{attr} is shrunk element by element (`{short(shrinks[0], 40)}`): whether it ends up empty is not decided", shrinks[0])
+            continue
+        chk.ob("O12.5", f"self.{attr} emptied after stop", bool(resets) and gst.must_pass(gst.entry, [gst.node_of(r) for r in resets]), resets[0] if resets else st,
+               "" if resets else f"stop_engine never empties self.{attr}: a second stop (exit request after StopNodes, re-used mechanic) handles the same nodes again")
+    # node actor: what it does with StopNodes / an exit request / other messages, evaluated on a stand-in actor that holds a mechanic
+    MECH = _Obj(cls="Mechanic", name="the mechanic of this host")
+    COORD = "address of the mechanic actor (sender of StopNodes)"
+    mech_attr = None
+    if sim_err is None and engine:
+        owners = [k for k, v in actor_ok.fields.items() if v is t_ok[engine[0]].recv]
+        mech_attr = owners[0] if len(owners) == 1 else None
+    if mech_attr is None:
+        mech_attr = "mechanic" if "mechanic" in nm_init else None
+    if mech_attr is None:
+        raise AnchorMissing("NodeMechanicActor: the attribute that holds the mechanic created for StartNodes")
+
+    def deliver(me_fields, msg, fail_name=None):
+        """Thespian's ActorTypeDispatcher hands msg to receiveMsg_<its class>, else to receiveUnrecognizedMessage"""
+        cname = msg.cls.rsplit(".", 1)[-1]
+        h = model.table.method(NM, f"receiveMsg_{cname}") or model.table.method(NM, "receiveUnrecognizedMessage")
+        if h is None:
+            raise AnchorMissing(f"NodeMechanicActor: no handler for {cname}")
+        me = me_fields if isinstance(me_fields, _Obj) else _Obj(name="self", **{k: _snap(v) for k, v in me_fields.items()})
+        sim = _Sim(model.table, NM, me, fail=(lambda ev: ev.name == fail_name) if fail_name else None)
+        escaped = None
+        try:
+            sim.call_method(h, [msg, COORD])
+        except _Raised as x:
+            escaped = x.name
+        return sim.trace, me, escaped, h
+
+    with_mech = dict(nm_init)
+    with_mech[mech_attr] = MECH
+    STOP, EXIT = _Obj(cls="StopNodes", name="StopNodes"), _Obj(cls="thespian.actors.ActorExitRequest", name="ActorExitRequest")
+    others_ = [_Obj(cls="ResetRelativeTime", name="ResetRelativeTime", reset_in_seconds=0), _Obj(cls="thespian.actors.WakeupMessage", name="WakeupMessage", payload=None),
+               _Obj(cls="SomeOtherMessage", name="an unrelated message")]
+
+    def stops_in(trace):
+        return [i for i, e in enumerate(trace) if e.recv is MECH and e.name == "stop_engine"]
+
+    try:
+        tA, meA, escA, hA = deliver(with_mech, STOP)
+        tB, meB, escB, _ = deliver(with_mech, STOP, fail_name="stop_engine")
+        tC, meC, escC, hC = deliver(with_mech, EXIT)
+        tCf, meCf, escCf, _ = deliver(with_mech, EXIT, fail_name="stop_engine")
+        tD, meD, escD, _ = deliver(meA, EXIT)  # the exit request that follows StopNodes
+        tN, meN, escN, _ = deliver(dict(nm_init), EXIT)  # an exit request for an actor that never started anything
+        rest = [deliver(with_mech, m_) for m_ in others_]
+        sim_err5 = None
+    except _Cannot as e:
+        sim_err5 = str(e)
+    ur = model.table.method(NM, "receiveUnrecognizedMessage") or NM.node
+    if sim_err5 is not None:
+        chk.unknown("O12.5", f"the node mechanic's handling of StopNodes / exit requests cannot be evaluated on a stand-in actor: {sim_err5}", ur)
+    elif not sends_of(tA, "NodesStopped") or not stops_in(tA):
+        raise AnchorMissing("NodeMechanicActor: NodesStopped send / stop_engine call when StopNodes is handled" + (f" ({escA} raised)" if escA else ""))
+    else:
+        ackA = sends_of(tA, "NodesStopped")
+        stray = [(m_.name, t_) for m_, (t_, _, _, _) in zip(others_ + [EXIT], rest + [(tC, meC, escC, hC)]) if sends_of(t_, "NodesStopped")]
+        chk.ob("O12.5", "NodesStopped only when handling StopNodes", not stray, sends_of(stray[0][1], "NodesStopped")[0][1].node if stray else ackA[0][1].node,
+               f"no NodesStopped for {', '.join(m_.name for m_ in others_ + [EXIT])}" if not stray else f"NodesStopped is sent when {stray[0][0]} is handled")
+        ok = len(stops_in(tA)) == 1 and stops_in(tA)[0] < ackA[0][0] and len(ackA) == 1 and _eq(ackA[0][1].args[0], COORD)
+        chk.ob("O12.5", "NodesStopped after stop_engine()", ok, ackA[0][1].node, f"stop_engine() is call #{stops_in(tA)[0] + 1}, NodesStopped goes to {[e.args[0] for _, e in ackA]} by call #{ackA[0][0] + 1}")
+        ok = bool(stops_in(tB)) and not sends_of(tB, "NodesStopped")
+        chk.ob("O12.5", "NodesStopped only when stop_engine() returned (not on its failure edge)", ok, (sends_of(tB, "NodesStopped") or ackA)[0][1].node,
                "" if ok else "the confirmation is also sent on a path on which stop_engine() raised (finally / handler): the coordinator acknowledges EngineStopped for a host that did not stop",
                key=f"{_M}:NodeMechanicActor.receiveUnrecognizedMessage:NodesStopped:normal-only")
-        for cl in clears_all:
-            ok = gur.only_after_normal_return(cl, arm_stops[0]) if arm_stops and any(t is a and pol for a in arm for t, pol in guards(cl)) else True
-            chk.ob("O12.5", "mechanic reference kept when stop_engine() failed (the exit request retries the stop)", ok, cl, "", key=f"{_M}:NodeMechanicActor.receiveUnrecognizedMessage:clear:normal-only")
-        clears = [n for n in walk_body(ur) if isinstance(n, ast.Assign) and any(is_self_attr(t, "mechanic") for t in n.targets) and source.is_const(n.value) and n.value.value is None]
-        after = [gur.node_of(c) for c in clears]
-        ok = bool(after) and gur.must_pass(gur.node_of(s), after, normal_only=True)
-        chk.ob("O12.5", "mechanic reference cleared after StopNodes", ok, s, f"{len(clears)} clearing store(s)")
-    for c in stops:
-        gs = guards(c)
-        in_stop_arm = any(pol and isinstance(t, ast.Call) and dotted(t.func) == "isinstance" and last_attr(t.args[1]) == "StopNodes" for t, pol in gs)
-        if in_stop_arm:
-            continue
-        from sa import pat as _pat
-        ok = _pat.guarded(c, "self.mechanic", "self.mechanic is not None") is not None
-        chk.ob("O12.5", "stop on exit request guarded by the mechanic reference (no second stop)", ok, c, short(source.enclosing_stmt(c), 60))
-    nsx = [n for m in repo.all_modules() for n in ast.walk(m.tree) if isinstance(n, ast.Call) and last_attr(n.func) == "NodesStopped"
-           and isinstance(source.parent(n), ast.Call) and source.enclosing_func(n) is not ur]
+        for what, me_, h_ in (("StopNodes", meB, hA), ("the exit request", meCf, hC)):
+            ok = me_.fields.get(mech_attr) is MECH
+            chk.ob("O12.5", "mechanic reference kept when stop_engine() failed (the exit request retries the stop)", ok, h_,
+                   f"stop_engine() fails while {what} is handled: self.{mech_attr} is {'kept' if ok else 'dropped (' + repr(me_.fields.get(mech_attr)) + ')'}",
+                   key=f"{_M}:NodeMechanicActor.receiveUnrecognizedMessage:clear:normal-only:{what}")
+        ok = escA is None and meA.fields.get(mech_attr) is None
+        chk.ob("O12.5", "mechanic reference cleared after StopNodes", ok, ackA[0][1].node, f"self.{mech_attr} is {meA.fields.get(mech_attr)!r} after StopNodes was handled")
+        failures = sends_of(tD, "BenchmarkFailure") + sends_of(tN, "BenchmarkFailure")
+        ok = not stops_in(tD) and not stops_in(tN) and len(stops_in(tC)) == 1 and meC.fields.get(mech_attr) is None and escD is None and escN is None and not failures
+        chk.ob("O12.5", "stop on exit request guarded by the mechanic reference (no second stop)", ok, failures[0][1].node if failures else hC,
+               f"exit request: {len(stops_in(tC))} stop with a mechanic, {len(stops_in(tD))} after StopNodes, {len(stops_in(tN))} without one"
+               + (f"; {escD or escN} escapes" if (escD or escN) else "") + ("; the request fails without a mechanic (a BenchmarkFailure is reported for a host that stopped cleanly)" if failures else ""))
+    nm_funcs = {id(fn) for fn in ast.walk(NM.node) if isinstance(fn, source.FUNC_TYPES)}
+    nsx = [n for n in source.package_calls(repo, "NodesStopped") if id(source.enclosing_func(n)) not in nm_funcs]
     chk.ob("O12.5", "NodesStopped constructed only in the node actor", not nsx, nsx[0] if nsx else ur, "")
 
     from rules.C13 import cleanup_isolation_rule
@@ -604,25 +2082,42 @@ def run(chk):
     # ---- O12.6 launcher stop stores system metrics for every node --------------------------------------------------------------------
     chk.rule("O12.6", "each launcher's stop() stores system metrics for every node on every normal path of the loop body (conditional only on the store being present)", 2,
              "a node that had already died / needed kill -9: its system metrics are silently missing")
-    for cname in ("ProcessLauncher", "DockerLauncher"):
-        c = lau.cls(cname)
-        sf = lau.methods(c).get("stop")
-        if sf is None:
-            raise AnchorMissing(f"{cname}.stop")
+    start_name = launches[0].value.func.attr
+    stop_names = {c.func.attr for c in stop_c}
+    if len(stop_names) != 1:
+        raise AnchorMissing(f"Mechanic.stop_engine: the launcher call that stops the nodes (found {sorted(stop_names)})")
+    stop_name = next(iter(stop_names))
+    launchers = [c for c in lau.classes() if start_name in lau.methods(c) and stop_name in lau.methods(c)]
+    if len(launchers) < 2:
+        raise AnchorMissing(f"{_L}: expected at least two launcher classes with {start_name}() and {stop_name}(), found {[c.name for c in launchers]}")
+    for c in launchers:
+        cname = c.name
+        sf_orig = lau.methods(c)[stop_name]
+        sps = params_of(sf_orig)
+        if len(sps) < 3:
+            raise AnchorMissing(f"{cname}.{stop_name}: signature (self, nodes, metrics_store)")
+        nodes_p, store_p = sps[1], sps[2]
+        sf = _Inliner(model.table, model.table.get(cname, _L)).expand(sf_orig)  # a per-node helper is analysed as part of the loop body
         gl = cfg_of(sf)
-        loops = [n for n in walk_body(sf) if isinstance(n, ast.For) and u(n.iter) == "nodes"]
+        loops = [n for n in walk_body(sf) if isinstance(n, ast.For) and isinstance(_card_source(n.iter, sf), ast.Name) and _card_source(n.iter, sf).id == nodes_p]
         stores = [n for n in walk_body(sf) if isinstance(n, ast.Call) and last_attr(n.func) == "store_system_metrics"]
+        stores = [s_ for s_ in stores if any(any(x is s_ for x in ast.walk(lp)) for lp in loops)] if loops else stores
         if not loops or not stores:
-            chk.ob("O12.6", f"{cname}.stop", False, sf, "no loop over nodes / no store_system_metrics call")
+            chk.unknown("O12.6", f"{cname}.{stop_name}: no for loop over `{nodes_p}` that calls store_system_metrics (the per-node storing of system metrics was not recognised)", sf_orig)
             continue
-        head = gl.node_of(loops[0])
+        loop6 = next(lp for lp in loops if any(x is stores[0] for x in ast.walk(lp)))
+        head = gl.node_of(loop6)
         store_nodes = [gl.node_of(s) for s in stores]
         allowed_false = []
+        sdefs6 = source.local_defs(sf)
         for s in stores:
-            for t, pol in guards(s, stop=loops[0]):
-                if pol and isinstance(t, ast.Name) and "metrics_store" in t.id:
-                    tn = gl.node_of(source.parent(t))
-                    allowed_false += [(tn.id, y, lab) for (y, lab) in gl.succ[tn.id] if lab == "false"]
+            for t, pol in guards(s, stop=loop6, path_sensitive=True):
+                t_ = source.inline_node(t, sdefs6)
+                present = (pol and isinstance(t_, ast.Name) and t_.id == store_p) or _patf.is_(t_ if pol else None, "V_s is not None", binds={"s": store_p}) \
+                    or (not pol and _patf.is_(t_, "V_s is None", binds={"s": store_p}))
+                if present:
+                    tn = gl.node_of(t)
+                    allowed_false += [(tn.id, y, lab) for (y, lab) in gl.succ[tn.id] if lab == ("false" if pol else "true")]
                 else:
                     allowed_false = None
                     break
@@ -640,26 +2135,25 @@ def run(chk):
     chk.rule("O12.4b", "the Dispatcher subscribes to registration changes on every path of StartEngine that does not send the start messages at once, and no activation that sends the "
              "parked start messages also cancels the subscription (the Dispatcher is never told that start-up has completed: at that point notifications are still needed)", 3,
              "all daemons have joined, one host is still installing / launching its nodes and its daemon leaves: nobody is notified, race control waits forever")
-    # the attribute(s) in which (node actor, start message) pairs are parked: self.<X>.append(<something built from createActor(...)>)
-    parked = set()
-    for f_ in DI.methods.values():
-        fdefs = _local_defs(f_)
-        for c in source.calls_in(f_, attr="append"):
-            if isinstance(c.func, ast.Attribute) and is_self_attr(c.func.value) and c.args \
-                    and any(isinstance(x, ast.Call) and last_attr(x.func) == "createActor" for x in ast.walk(inline_node(c.args[0], fdefs))):
-                parked.add(c.func.value.attr)
-    if not parked:
-        raise AnchorMissing("Dispatcher: no attribute in which created node actors are parked together with their start message")
+    # `parked`: the attribute in which (node actor, start message) pairs wait (derived for O12.1c)
 
     def is_start_send(c, fn):
-        """a send inside a loop over the parked (actor, start message) pairs"""
+        """a send that hands out the parked (actor, start message) pairs: inside a loop over the parked list (for ... in self.<parked> / while self.<parked>), or fed from it directly
+        (self.send(*self.<parked>.pop(0)))"""
         if last_attr(c.func) != "send":
             return False
         fdefs = _local_defs(fn)
+
+        def from_parked(e):
+            return any(is_self_attr(x) and x.attr in parked for x in ast.walk(inline_node(e, fdefs)))
+
+        if any(from_parked(a.value if isinstance(a, ast.Starred) else a) for a in c.args):
+            return True
         for a in source.ancestors(c):
             if a is fn:
                 break
-            if isinstance(a, (ast.For, ast.AsyncFor)) and any(is_self_attr(x) and x.attr in parked for x in ast.walk(inline_node(a.iter, fdefs))):
+            if (isinstance(a, (ast.For, ast.AsyncFor)) and from_parked(a.iter)) or (isinstance(a, ast.While) and from_parked(a.test)) \
+                    or (isinstance(a, (ast.ListComp, ast.SetComp, ast.GeneratorExp, ast.DictComp)) and any(from_parked(g_.iter) for g_ in a.generators)):
                 return True
         return False
 
@@ -703,15 +2197,15 @@ def run(chk):
              "ends in a BenchmarkFailure", 1,
              "the process of one host's node mechanic dies while it starts its nodes (OOM kill, SystemExit in an install hook): only logged as unrecognized, race control waits forever")
     from sa import minieval as _me4c
-    from sa.tables import Unsupported as _Uns4c
-    from sa.sym import UnknownAtom as _UA4c
     nsh = MA.methods.get("receiveMsg_NodesStarted")
     await_status = None
     if nsh is not None:
-        for c in source.calls_in(nsh, attr="transition_when_all_children_responded"):
-            exp = source.bind_args(c, f).get("expected_status")  # f: RallyActor.transition_when_all_children_responded (O12.1)
-            if exp is not None and isinstance(exp, ast.Constant) and isinstance(exp.value, str):
-                await_status = exp.value
+        for _, fn_ in model.method_closure(MA, nsh):
+            for c in source.calls_in(fn_, attr=f.name):
+                exp = source.bind_args(c, f).get(roles["expected"])  # f: RallyActor.transition_when_all_children_responded (O12.1)
+                exp = source.inline_node(exp, source.local_defs(fn_)) if exp is not None else None
+                if exp is not None and isinstance(exp, ast.Constant) and isinstance(exp.value, str):
+                    await_status = exp.value
     if await_status is None:
         raise AnchorMissing("MechanicActor.receiveMsg_NodesStarted: status in which the acknowledgements are awaited (expected_status of the transition)")
 
@@ -736,8 +2230,8 @@ def run(chk):
                    "the missing NodesStarted", key=key4c)
             continue
         try:
-            kind, site, text = _child_exit_outcome(model, a, h, await_status)
-        except (_Uns4c, _UA4c, _me4c.CannotEval) as e:
+            kind, site, text = _child_exit_outcome(model, a, h, await_status, status_attr[0] or "status", RA)
+        except _Cannot as e:
             chk.unknown("O12.4c", f"{a.name}.{_CHILD_EXIT} is not a decision over the actor's status ending in sends: {e}", h)
             continue
         chk.ob("O12.4c", inst, kind in ("failure", "forward"), site, text, key=key4c)
@@ -751,18 +2245,7 @@ def run(chk):
     chk.rule("O12.7", "in every launcher's start(): an exception raised while the node configurations are being started reaches self.stop(<nodes started so far>, ...) before it "
              "leaves start(), and it does leave start() as an exception (sibling agreement of all launchers; the mechanic records the nodes only if ALL of them started)", 4,
              "several nodes per host, the second one fails to start: the failure is reported but the first node is never stopped (tear-down stops an empty list and wipes its installation)")
-    se_m = mech.methods(M).get("start_engine")
-    if se_m is None:
-        raise AnchorMissing("Mechanic.start_engine")
-    start_names = {n.value.func.attr for n in walk_body(se_m) if isinstance(n, ast.Assign) and any(is_self_attr(t, "nodes") for t in n.targets)
-                   and isinstance(n.value, ast.Call) and isinstance(n.value.func, ast.Attribute) and "launcher" in u(n.value.func.value)}
-    stop_names = {c.func.attr for c in stop_c if isinstance(c.func, ast.Attribute)}
-    if len(start_names) != 1 or len(stop_names) != 1:
-        raise AnchorMissing(f"Mechanic.start_engine / stop_engine: launcher start/stop call (start={sorted(start_names)} stop={sorted(stop_names)})")
-    start_name, stop_name = next(iter(start_names)), next(iter(stop_names))
-    launchers = [c for c in lau.classes() if start_name in lau.methods(c) and stop_name in lau.methods(c)]
-    if len(launchers) < 2:
-        raise AnchorMissing(f"{_L}: expected at least two launcher classes with {start_name}() and {stop_name}(), found {[c.name for c in launchers]}")
+    # start_name / stop_name / launchers: derived from Mechanic.start_engine / stop_engine above (O12.5, O12.6)
     for c in launchers:
         sf = lau.methods(c)[start_name]
         stopf = lau.methods(c)[stop_name]
@@ -797,6 +2280,18 @@ def run(chk):
                 continue
             a0 = source.arg_of(x, 0, stop_kw)
             if a0 is not None and any(isinstance(y, ast.Name) and y.id in acc for y in ast.walk(inline_node(a0, {k: v for k, v in ldefs.items() if k not in acc}))):
+                stops7.append(x)
+        # ... or a helper of the class that is handed the nodes started so far and passes them on to self.stop(...) on every normal path
+        for x in source.calls_in(sf):
+            if not _self_call(x) or x.func.attr == stop_name or x.func.attr not in lau.methods(c) or any(x is y for y in stops7):
+                continue
+            helper = lau.methods(c)[x.func.attr]
+            bound7 = source.bind_args(x, helper)
+            gh = cfg_of(helper)
+            inner = [y for y in source.calls_in(helper, attr=stop_name) if _self_call(y) and isinstance(source.arg_of(y, 0, stop_kw), ast.Name)
+                     and source.arg_of(y, 0, stop_kw).id in bound7
+                     and any(isinstance(z, ast.Name) and z.id in acc for z in ast.walk(inline_node(bound7[source.arg_of(y, 0, stop_kw).id], {k: v for k, v in ldefs.items() if k not in acc})))]
+            if inner and gh.must_pass(gh.entry, [n_ for y in inner for n_ in gh.nodes_of(y)], normal_only=True):
                 stops7.append(x)
         stop_nodes = [n_ for x in stops7 for n_ in gl.nodes_of(x)]
         starting = []
@@ -957,4 +2452,148 @@ VARIANTS = [
     V("keyword transition argument", "keep", _M, 'self.transition_when_all_children_responded(sender, msg, "cluster_stopping", "cluster_stopped", self.on_all_nodes_stopped)',
       'self.transition_when_all_children_responded(sender, msg, expected_status="cluster_stopping", new_status="cluster_stopped", transition=self.on_all_nodes_stopped)'),
     V("logging between stop stages", "keep", _M, "        self.flush_metrics(refresh=True)\n        try:", "        self.flush_metrics(refresh=True)\n        self.logger.info('flushed')\n        try:"),
+    # ---- hardening round 2: the refactored shapes the re-stated obligations accept (keep) and defects placed INSIDE those shapes (break) ----
+    # O12.1: decided by evaluating the helper on acknowledgement counts
+    [V("H2: surplus raises, missing returns, otherwise transition (guard clauses instead of == / elif >)", "keep", _A, "            if response_count == expected_count:\n",
+       "            if response_count > expected_count:\n                raise exceptions.RallyAssertionError('surplus response')\n            if response_count < expected_count:\n"
+       "                return\n            if True:\n"),
+     V("", "keep", _A, "            elif response_count > expected_count:\n                raise exceptions.RallyAssertionError(\n"
+       "                    \"Received [%d] responses but only [%d] were expected to transition from [%s] to [%s]. The responses are: %s\"\n"
+       "                    % (response_count, expected_count, self.status, new_status, self.received_responses)\n                )\n", "")],
+    [V("H2: guard clauses, but the wait ends one acknowledgement early", "break", _A, "            if response_count == expected_count:\n",
+       "            if response_count > expected_count:\n                raise exceptions.RallyAssertionError('surplus response')\n            if response_count < expected_count - 1:\n"
+       "                return\n            if True:\n", "O12.1"),
+     V("", "break", _A, "            elif response_count > expected_count:\n                raise exceptions.RallyAssertionError(\n"
+       "                    \"Received [%d] responses but only [%d] were expected to transition from [%s] to [%s]. The responses are: %s\"\n"
+       "                    % (response_count, expected_count, self.status, new_status, self.received_responses)\n                )\n", "")],
+    [V("H2: recording and counting the response extracted into a helper method", "keep", _A,
+       "            self.received_responses.append(msg)\n            response_count = len(self.received_responses)", "            response_count = self._record_response(msg)"),
+     V("", "keep", _A, "    def send_to_children_and_transition(self, sender, msg, expected_status, new_status):",
+       "    def _record_response(self, response):\n        self.received_responses.append(response)\n        return len(self.received_responses)\n\n"
+       "    def send_to_children_and_transition(self, sender, msg, expected_status, new_status):")],
+    [V("H2: the extracted helper counts before it records the response", "break", _A,
+       "            self.received_responses.append(msg)\n            response_count = len(self.received_responses)", "            response_count = self._record_response(msg)", "O12.1"),
+     V("", "break", _A, "    def send_to_children_and_transition(self, sender, msg, expected_status, new_status):",
+       "    def _record_response(self, response):\n        seen = len(self.received_responses)\n        self.received_responses.append(response)\n        return seen\n\n"
+       "    def send_to_children_and_transition(self, sender, msg, expected_status, new_status):")],
+    [V("H2: responses collected in an attribute with another name (consistent rename)", "keep", _A, "self.received_responses", "self.acks_so_far", count=5),
+     V("", "keep", _M, "self.received_responses", "self.acks_so_far", count=2)],
+    # O12.1b: the constructing routine is followed up the call graph of the class
+    [V("H2: EngineStarted built by a helper that only the transition routine calls", "keep", _M, "        self.send(self.race_control, EngineStarted(self.team_revision))",
+       "        self.send(self.race_control, self._engine_started())"),
+     V("", "keep", _M, "    def reset_relative_time(self):\n        for m in self.children:",
+       "    def _engine_started(self):\n        return EngineStarted(self.team_revision)\n\n    def reset_relative_time(self):\n        for m in self.children:")],
+    [V("H2: the message-building helper is also used by the NodesStarted handler directly", "break", _M, "        self.send(self.race_control, EngineStarted(self.team_revision))",
+       "        self.send(self.race_control, self._engine_started())", "O12.1b"),
+     V("", "break", _M, "    def reset_relative_time(self):\n        for m in self.children:",
+       "    def _engine_started(self):\n        return EngineStarted(self.team_revision)\n\n    def reset_relative_time(self):\n        for m in self.children:"),
+     V("", "break", _M, "        if sender not in self.children:\n", "        self.send(self.race_control, self._engine_started())\n        if sender not in self.children:\n")],
+    # O12.1c: chains through wrappers / helpers, joining and sending decided on representative dispatcher states
+    [V("H2: both counts through element-preserving wrappers", "keep", _M, "            self.children = [None] * len(nodes_by_host(to_ip_port(hosts)))",
+       "            self.children = [None] * len(list(nodes_by_host(to_ip_port(hosts)).keys()))"),
+     V("", "keep", _M, "        for (ip, port), node in all_nodes_by_host.items():", "        for (ip, port), node in sorted(all_nodes_by_host.items()):")],
+    V("H2: entry of a joined remote removed with pop(key, None)", "keep", _M, "            if remote_ip in self.remotes:\n                del self.remotes[remote_ip]\n",
+      "            self.remotes.pop(remote_ip, None)\n"),
+    V("H2: parked start messages drained with while / pop", "keep", _M, "        for each in self.pending:\n            self.send(*each)\n        self.pending = []\n",
+      "        while self.pending:\n            node_mechanic, startmsg = self.pending.pop(0)\n            self.send(node_mechanic, startmsg)\n"),
+    V("H2: drain loop that sends the first parked message only", "break", _M, "        for each in self.pending:\n            self.send(*each)\n        self.pending = []\n",
+      "        while self.pending:\n            node_mechanic, startmsg = self.pending.pop(0)\n            self.send(node_mechanic, startmsg)\n            break\n", "O12.1c"),
+    V("H2: start messages of a joined remote parked without a node actor of their own", "break", _M,
+      "                self.pending.append((self.createActor(NodeMechanicActor, targetActorRequirements={\"ip\": remote_ip}), eachmsg))",
+      "                pass\n            if self.remotes[remote_ip]:\n                self.pending.append((self.createActor(NodeMechanicActor, targetActorRequirements={\"ip\": remote_ip}), self.remotes[remote_ip][0]))",
+      "O12.1c"),
+    # O12.2: the flag is found by role and tests are decided for external / provisioned
+    [V("H2: flag renamed and stored negated (rally_managed = not external)", "keep", _M, "        self.externally_provisioned = msg.external\n        if self.externally_provisioned:",
+       "        self.rally_managed = not msg.external\n        if not self.rally_managed:"),
+     V("", "keep", _M, "        if self.externally_provisioned:\n            self.on_all_nodes_stopped()", "        if not self.rally_managed:\n            self.on_all_nodes_stopped()"),
+     V("", "keep", _M, "        self.externally_provisioned = False", "        self.rally_managed = True")],
+    [V("H2: negated flag read with the wrong polarity at stop time", "break", _M, "        self.externally_provisioned = msg.external\n        if self.externally_provisioned:",
+       "        self.rally_managed = not msg.external\n        if not self.rally_managed:", "O12."),
+     V("", "break", _M, "        if self.externally_provisioned:\n            self.on_all_nodes_stopped()", "        if self.rally_managed:\n            self.on_all_nodes_stopped()"),
+     V("", "break", _M, "        self.externally_provisioned = False", "        self.rally_managed = True")],
+    V("H2: create() tests the external switch first", "keep", _M, "    if sources or distribution:\n        s = supplier.create(cfg, sources, distribution, car, plugins)",
+      "    if external and not (sources or distribution):\n        raise exceptions.RallyAssertionError('externally provisioned')\n    if sources or distribution:\n"
+      "        s = supplier.create(cfg, sources, distribution, car, plugins)"),
+    # O12.3: the handler is run on a start message and every call before the acknowledgement is made to fail in turn
+    [V("H2: failure reporting of StartNodes extracted into a helper", "keep", _M,
+       "            self.send(getattr(msg, \"reply_to\", sender), actor.BenchmarkFailure(ex_value, traceback.format_exc()))",
+       "            self._report_failure(getattr(msg, \"reply_to\", sender), ex_value)"),
+     V("", "keep", _M, "    def _failure_target(self, msg, sender):",
+       "    def _report_failure(self, target, cause):\n        self.send(target, actor.BenchmarkFailure(cause, traceback.format_exc()))\n\n    def _failure_target(self, msg, sender):")],
+    [V("H2: the extracted failure helper only logs", "break", _M,
+       "            self.send(getattr(msg, \"reply_to\", sender), actor.BenchmarkFailure(ex_value, traceback.format_exc()))",
+       "            self._report_failure(getattr(msg, \"reply_to\", sender), ex_value)", "O12.3"),
+     V("", "break", _M, "    def _failure_target(self, msg, sender):",
+       "    def _report_failure(self, target, cause):\n        self.logger.error('start failed: %s (%s)', cause, target)\n\n    def _failure_target(self, msg, sender):")],
+    V("H2: acknowledgement sent to the address stored at the start of the handler", "keep", _M, "            self.send(getattr(msg, \"reply_to\", sender), NodesStarted())",
+      "            self.send(self.reply_to, NodesStarted())"),
+    V("H2: acknowledgement sent to the relaying dispatcher instead of the requester", "break", _M, "            self.send(getattr(msg, \"reply_to\", sender), NodesStarted())",
+      "            self.send(sender, NodesStarted())", "O12.3"),
+    V("H2: narrow handler around the start of the nodes", "break", _M, "        except Exception:\n            self.logger.exception(\"Cannot process message [%s]\", msg)\n            # avoid",
+      "        except exceptions.LaunchError:\n            self.logger.exception(\"Cannot process message [%s]\", msg)\n            # avoid", "O12.3"),
+    # O12.4: the departure is evaluated on dispatcher states (before the daemon joined / after all have joined)
+    [V("H2: departure reported through a helper, guard clause first", "keep", _M,
+       "            self.send(\n                self.start_sender,\n                actor.BenchmarkFailure(\"Remote Rally node [%s] has been shutdown prematurely.\" % convmsg.remoteAdminAddress),\n            )",
+       "            self._tell_requester(actor.BenchmarkFailure(\"Remote Rally node [%s] has been shutdown prematurely.\" % convmsg.remoteAdminAddress))\n            return"),
+     V("", "keep", _M, "    def send_all_pending(self):", "    def _tell_requester(self, what):\n        requester = self.start_sender\n        self.send(requester, what)\n\n    def send_all_pending(self):")],
+    [V("H2: the departure helper reports to the dispatcher itself", "break", _M,
+       "            self.send(\n                self.start_sender,\n                actor.BenchmarkFailure(\"Remote Rally node [%s] has been shutdown prematurely.\" % convmsg.remoteAdminAddress),\n            )",
+       "            self._tell_requester(actor.BenchmarkFailure(\"Remote Rally node [%s] has been shutdown prematurely.\" % convmsg.remoteAdminAddress))\n            return", "O12.4"),
+     V("", "break", _M, "    def send_all_pending(self):", "    def _tell_requester(self, what):\n        self.send(self.myAddress, what)\n\n    def send_all_pending(self):")],
+    # O12.5: helpers of the Mechanic are expanded; the node actor is run on StopNodes / exit requests / other messages
+    [V("H2: clean-up of the installations extracted into a helper of the Mechanic", "keep", _M,
+       "        for node_config in self.node_configs:\n            provisioner.cleanup(preserve=self.preserve_install, install_dir=node_config.binary_path, data_paths=node_config.data_paths)\n"
+       "        self.node_configs = []\n", "        self._cleanup_installations()\n"),
+     V("", "keep", _M, "    def _current_race(self):",
+       "    def _cleanup_installations(self):\n        keep = self.preserve_install\n        for node_config in self.node_configs:\n"
+       "            provisioner.cleanup(preserve=keep, install_dir=node_config.binary_path, data_paths=node_config.data_paths)\n        self.node_configs.clear()\n\n    def _current_race(self):")],
+    [V("H2: the extracted clean-up helper runs before the metrics store is closed", "break", _M,
+       "        for node_config in self.node_configs:\n            provisioner.cleanup(preserve=self.preserve_install, install_dir=node_config.binary_path, data_paths=node_config.data_paths)\n"
+       "        self.node_configs = []\n", "", "O12.5"),
+     V("", "break", _M, "        self.metrics_store.close()\n        self.nodes = []\n", "        self._cleanup_installations()\n        self.metrics_store.close()\n        self.nodes = []\n"),
+     V("", "break", _M, "    def _current_race(self):",
+       "    def _cleanup_installations(self):\n        for node_config in self.node_configs:\n"
+       "            provisioner.cleanup(preserve=self.preserve_install, install_dir=node_config.binary_path, data_paths=node_config.data_paths)\n        self.node_configs = []\n\n    def _current_race(self):")],
+    [V("H2: StopNodes handled by a handler of its own", "keep", _M,
+       "            elif isinstance(msg, StopNodes):\n                self.mechanic.stop_engine()\n                self.send(sender, NodesStopped())\n                self.mechanic = None\n", ""),
+     V("", "keep", _M, "    def receiveUnrecognizedMessage(self, msg, sender):\n        # at the moment",
+       "    def receiveMsg_StopNodes(self, msg, sender):\n        try:\n            self.mechanic.stop_engine()\n            self.send(sender, NodesStopped())\n            self.mechanic = None\n"
+       "        except BaseException as e:\n            self.logger.exception(\"Cannot process message [%s]\", msg)\n"
+       "            self.send(self._failure_target(msg, sender), actor.BenchmarkFailure(\"Error on host %s\" % str(self.host), e))\n\n"
+       "    def receiveUnrecognizedMessage(self, msg, sender):\n        # at the moment")],
+    [V("H2: the StopNodes handler of its own confirms in a finally block", "break", _M,
+       "            elif isinstance(msg, StopNodes):\n                self.mechanic.stop_engine()\n                self.send(sender, NodesStopped())\n                self.mechanic = None\n", "", "O12.5"),
+     V("", "break", _M, "    def receiveUnrecognizedMessage(self, msg, sender):\n        # at the moment",
+       "    def receiveMsg_StopNodes(self, msg, sender):\n        try:\n            self.mechanic.stop_engine()\n            self.mechanic = None\n"
+       "        except BaseException as e:\n            self.logger.exception(\"Cannot process message [%s]\", msg)\n"
+       "            self.send(self._failure_target(msg, sender), actor.BenchmarkFailure(\"Error on host %s\" % str(self.host), e))\n        finally:\n            self.send(sender, NodesStopped())\n\n"
+       "    def receiveUnrecognizedMessage(self, msg, sender):\n        # at the moment")],
+    V("H2: attribute of the node actor that holds the mechanic renamed", "keep", _M, "self.mechanic", "self.node_mechanic", count=12),
+    # O12.6 / O12.7: per-node helper of a launcher, roll-back helper
+    V("H2: per-node shutdown of the Docker launcher extracted into a helper", "keep", _L,
+      "            self.logger.info(\"Stopping node [%s].\", node.node_name)\n            if metrics_store:\n                telemetry.add_metadata_for_node(metrics_store, node.node_name, node.host_name)\n"
+      "            node.telemetry.detach_from_node(node, running=True)\n            process.run_subprocess_with_logging(self._docker_compose(node.binary_path, \"down\"))\n"
+      "            node.telemetry.detach_from_node(node, running=False)\n            if metrics_store:\n                node.telemetry.store_system_metrics(node, metrics_store)\n",
+      "            self._stop_node(node, metrics_store)\n\n    def _stop_node(self, node, store):\n        self.logger.info(\"Stopping node [%s].\", node.node_name)\n        if store is not None:\n"
+      "            telemetry.add_metadata_for_node(store, node.node_name, node.host_name)\n        node.telemetry.detach_from_node(node, running=True)\n"
+      "        process.run_subprocess_with_logging(self._docker_compose(node.binary_path, \"down\"))\n        node.telemetry.detach_from_node(node, running=False)\n"
+      "        if store is not None:\n            node.telemetry.store_system_metrics(node, store)\n"),
+    V("H2: the extracted per-node helper returns early for a node without a binary path", "break", _L,
+      "            self.logger.info(\"Stopping node [%s].\", node.node_name)\n            if metrics_store:\n                telemetry.add_metadata_for_node(metrics_store, node.node_name, node.host_name)\n"
+      "            node.telemetry.detach_from_node(node, running=True)\n            process.run_subprocess_with_logging(self._docker_compose(node.binary_path, \"down\"))\n"
+      "            node.telemetry.detach_from_node(node, running=False)\n            if metrics_store:\n                node.telemetry.store_system_metrics(node, metrics_store)\n",
+      "            self._stop_node(node, metrics_store)\n\n    def _stop_node(self, node, store):\n        self.logger.info(\"Stopping node [%s].\", node.node_name)\n"
+      "        if not node.binary_path:\n            return\n        node.telemetry.detach_from_node(node, running=True)\n"
+      "        process.run_subprocess_with_logging(self._docker_compose(node.binary_path, \"down\"))\n        node.telemetry.detach_from_node(node, running=False)\n"
+      "        if store is not None:\n            node.telemetry.store_system_metrics(node, store)\n", "O12.6"),
+    [V("H2: roll-back of the started nodes extracted into a helper of the launcher", "keep", _L,
+       "                nodes.append(node)\n        except BaseException:\n            # all or nothing: the caller only learns about the nodes if all of them have started, so stop the ones that already run\n"
+       "            self.stop(nodes, None)\n            raise\n", "                nodes.append(node)\n        except BaseException:\n            self._roll_back(nodes)\n            raise\n"),
+     V("", "keep", _L, "    def _docker_compose(self, compose_config, cmd):",
+       "    def _roll_back(self, started):\n        self.logger.warning('stopping the nodes already started')\n        self.stop(started, None)\n\n    def _docker_compose(self, compose_config, cmd):")],
+    [V("H2: the roll-back helper only stops something when asked to", "break", _L,
+       "                nodes.append(node)\n        except BaseException:\n            # all or nothing: the caller only learns about the nodes if all of them have started, so stop the ones that already run\n"
+       "            self.stop(nodes, None)\n            raise\n", "                nodes.append(node)\n        except BaseException:\n            self._roll_back(nodes)\n            raise\n", "O12.7"),
+     V("", "break", _L, "    def _docker_compose(self, compose_config, cmd):",
+       "    def _roll_back(self, started, force=False):\n        if force:\n            self.stop(started, None)\n\n    def _docker_compose(self, compose_config, cmd):")],
 ]
